@@ -730,14 +730,358 @@ theorem push_clean (v : BVec) (hw : v.WF) (hc : v.Clean) (b : Bool) :
     · exact hlt
     · intro q; rfl
 
-/-- P: on a vector whose padding bits are clear (every vector built by `from_bools`, `new`,
-`zeros` and pushes is; `ones(n)`, `filled(n, true)` and `not()` are not), `push` appends: the bits
-read back are the old bits followed by the pushed bit. -/
-theorem c15b_bitvec_push_partial (v : BVec) (hw : v.WF) (hc : v.Clean) (b : Bool) (bs : List Bool)
+/-! ### the unused bits of the last word stay clear -/
+
+theorem modify_lt (data : List Nat) (i : Nat) (f : Nat → Nat) (h : ∀ w ∈ data, w < W)
+    (hf : ∀ w, w < W → f w < W) : ∀ w ∈ data.modify i f, w < W := by
+  intro w hw
+  obtain ⟨k, hk, he⟩ := List.getElem_of_mem hw
+  have hk' : k < data.length := by simpa using hk
+  have := List.getElem?_modify f i data k
+  rw [List.getElem?_eq_getElem hk, List.getElem?_eq_getElem hk', he] at this
+  simp only [Option.map_eq_map, Option.map_some, Option.some.injEq] at this
+  rw [this]
+  have hwk := h _ (List.getElem_mem hk')
+  split
+  · exact hf _ hwk
+  · exact hwk
+
+theorem bitmapNull_clearPadding (data : List Nat) (len : Nat) (hl : data.length = nWords len) (q : Nat) :
+    bitmapNull (BVec.clearPadding ⟨data, len⟩).data q = (bitmapNull data q && decide (q < len)) := by
+  unfold nWords at hl
+  unfold BVec.clearPadding
+  simp only
+  by_cases hr : len % 64 > 0
+  · rw [if_pos hr]
+    simp only
+    unfold bitmapNull
+    rw [List.getElem?_modify]
+    cases hq : data[q / 64]? with
+    | none => simp
+    | some w =>
+      have hql : q / 64 < data.length := by
+        apply Classical.byContradiction; intro hn
+        rw [List.getElem?_eq_none (by omega)] at hq; cases hq
+      simp only [Option.map_eq_map, Option.map_some]
+      by_cases hlast : data.length - 1 = q / 64
+      · rw [if_pos hlast, getBit_eq_testBit, getBit_eq_testBit, Nat.testBit_and,
+          Nat.testBit_two_pow_sub_one]
+        congr 1
+        have : (q % 64 < len % 64) ↔ q < len := by omega
+        simp [this]
+      · rw [if_neg hlast]
+        have : q < len := by omega
+        simp [this]
+  · rw [if_neg hr]
+    simp only
+    by_cases hq : q < len
+    · simp [hq]
+    · have : bitmapNull data q = false := by
+        unfold bitmapNull
+        rw [List.getElem?_eq_none (by omega)]
+      simp [this]
+
+theorem clearPadding_wf_clean (data : List Nat) (len : Nat) (hl : data.length = nWords len)
+    (hw : ∀ w ∈ data, w < W) :
+    (BVec.clearPadding ⟨data, len⟩).WF ∧ (BVec.clearPadding ⟨data, len⟩).Clean ∧
+    (BVec.clearPadding ⟨data, len⟩).len = len := by
+  have hlen : (BVec.clearPadding ⟨data, len⟩).len = len := by
+    unfold BVec.clearPadding; split <;> rfl
+  refine ⟨⟨?_, ?_⟩, ?_, hlen⟩
+  · rw [hlen]; unfold BVec.clearPadding; split
+    · simp [hl]
+    · exact hl
+  · unfold BVec.clearPadding; split
+    · exact modify_lt _ _ _ hw (fun w hw' => Nat.lt_of_le_of_lt Nat.and_le_left hw')
+    · exact hw
+  · intro q hq
+    rw [hlen] at hq
+    rw [bitmapNull_clearPadding data len hl]
+    have : ¬ q < len := by omega
+    simp [this]
+
+/-- a well-formed vector with clear padding is unchanged by `clear_padding` -/
+theorem clearPadding_id (v : BVec) (hw : v.WF) (hc : v.Clean) : v.clearPadding = v := by
+  obtain ⟨data, len⟩ := v
+  obtain ⟨hl, hlt⟩ := hw
+  simp only at hl hlt
+  unfold BVec.Clean at hc
+  simp only at hc
+  unfold BVec.clearPadding
+  simp only
+  split
+  · rename_i hr
+    congr 1
+    apply List.ext_getElem?
+    intro k
+    rw [List.getElem?_modify]
+    cases hk : data[k]? with
+    | none => rfl
+    | some w =>
+      simp only [Option.map_eq_map, Option.map_some, Option.some.injEq]
+      split
+      · rename_i hlast
+        have hkl : k < data.length := by
+          apply Classical.byContradiction; intro hn
+          rw [List.getElem?_eq_none (by omega)] at hk; cases hk
+        unfold nWords at hl
+        have hwlt : w < W := hlt w (by
+          obtain ⟨_, he⟩ := List.getElem?_eq_some_iff.mp hk
+          rw [← he]; exact List.getElem_mem _)
+        have : w < 2 ^ (len % 64) := by
+          apply Nat.lt_pow_two_of_testBit
+          intro j hj
+          by_cases hj64 : j < 64
+          · have := hc (64 * k + j) (by omega)
+            rw [bitmapNull_word data k j hj64] at this
+            simpa [List.getD, hk] using this
+          · apply Nat.testBit_lt_two_pow
+            rw [W_eq2] at hwlt
+            exact Nat.lt_of_lt_of_le hwlt (Nat.pow_le_pow_right (by decide) (by omega))
+        exact Nat.and_two_pow_sub_one_of_lt_two_pow this
+      · rfl
+  · rfl
+
+theorem bitmapNull_replicate_ones (n q : Nat) :
+    bitmapNull (List.replicate n (W - 1)) q = decide (q / 64 < n) := by
+  unfold bitmapNull
+  by_cases h : q / 64 < n
+  · rw [List.getElem?_eq_getElem (by simpa using h)]
+    simp only [List.getElem_replicate, h, decide_true]
+    rw [getBit_eq_testBit]
+    have : W - 1 = 2 ^ 64 - 1 := by decide
+    rw [this, Nat.testBit_two_pow_sub_one]; simp; omega
+  · rw [List.getElem?_eq_none (by simpa using Nat.le_of_not_lt h)]; simp [h]
+
+/-- every bit of `filled(n, b)`: `b` below `n`, clear beyond -/
+theorem bitmapNull_filled (n : Nat) (b : Bool) (q : Nat) :
+    bitmapNull (BVec.filled n b).data q = (b && decide (q < n)) := by
+  unfold BVec.filled
+  rw [bitmapNull_clearPadding _ _ (by simp)]
+  cases b
+  · simp only [Bool.false_eq_true, if_false, bitmapNull_replicate, Bool.false_and]
+  · simp only [if_true, bitmapNull_replicate_ones, Bool.true_and]
+    unfold nWords
+    by_cases hq : q < n
+    · have : q / 64 < (n + 63) / 64 := by omega
+      simp [hq, this]
+    · simp [hq]
+
+theorem filled_wf_clean (n : Nat) (b : Bool) :
+    (BVec.filled n b).WF ∧ (BVec.filled n b).Clean ∧ (BVec.filled n b).len = n := by
+  unfold BVec.filled
+  apply clearPadding_wf_clean _ _ (by simp)
+  intro w hw
+  simp only [List.mem_replicate] at hw
+  rw [hw.2]; split <;> decide
+
+theorem filled_false_wf_clean (n : Nat) : (BVec.filled n false).WF ∧ (BVec.filled n false).Clean :=
+  ⟨(filled_wf_clean n false).1, (filled_wf_clean n false).2.1⟩
+
+theorem notW_lt (w : Nat) (h : w < W) : notW w < W := by
+  unfold notW
+  rw [W_eq2] at *
+  exact Nat.xor_lt_two_pow (by omega) h
+
+theorem not_wf_clean (v : BVec) (hw : v.WF) : v.not.WF ∧ v.not.Clean := by
+  unfold BVec.not
+  have := clearPadding_wf_clean (v.data.map notW) v.len (by simp [hw.1]) (by
+    intro w hm
+    obtain ⟨x, hx, rfl⟩ := List.mem_map.mp hm
+    exact notW_lt x (hw.2 x hx))
+  exact ⟨this.1, this.2.1⟩
+
+theorem zipWords_wf_clean (f : Nat → Nat → Nat) (hf : ∀ x y, x < W → y < W → f x y < W)
+    (a b : BVec) (ha : a.WF) (hb : b.WF) : (zipWords f a b).WF ∧ (zipWords f a b).Clean := by
+  unfold zipWords
+  have := clearPadding_wf_clean ((List.zipWith f a.data b.data).take (nWords (min a.len b.len)))
+    (min a.len b.len) (by
+      rw [List.length_take, List.length_zipWith, ha.1, hb.1]
+      unfold nWords; omega) (by
+      intro w hm
+      have hm' := List.mem_of_mem_take hm
+      obtain ⟨k, hk, he⟩ := List.getElem_of_mem hm'
+      rw [List.getElem_zipWith] at he
+      rw [← he]
+      simp only [List.length_zipWith] at hk
+      exact hf _ _ (ha.2 _ (List.getElem_mem _)) (hb.2 _ (List.getElem_mem _)))
+  exact ⟨this.1, this.2.1⟩
+
+theorem ofLe_lt (bs : List Nat) (h : ∀ b ∈ bs, b < 256) : ofLe bs < 256 ^ bs.length := by
+  induction bs with
+  | nil => simp [ofLe]
+  | cons b t ih =>
+    have hb := h b (by simp)
+    have ht := ih (fun x hx => h x (by simp [hx]))
+    simp only [ofLe, List.length_cons, Nat.pow_succ]
+    omega
+
+theorem readWords_lt (n : Nat) (bs ws : List Nat) (h : ∀ b ∈ bs, b < 256)
+    (hr : readWords n bs = some ws) : ws.length = n ∧ ∀ w ∈ ws, w < W := by
+  induction n generalizing bs ws with
+  | zero => simp only [readWords, Option.some.injEq] at hr; subst hr; exact ⟨rfl, by intro w hw; cases hw⟩
+  | succ n ih =>
+    unfold readWords at hr
+    split at hr
+    · cases hr
+    · rename_i hlen
+      cases hrec : readWords n (bs.drop 8) with
+      | none => rw [hrec] at hr; cases hr
+      | some r =>
+        rw [hrec] at hr
+        simp only [Option.some.injEq] at hr
+        subst hr
+        obtain ⟨h1, h2⟩ := ih (bs.drop 8) r (fun b hb => h b (List.mem_of_mem_drop hb)) hrec
+        refine ⟨by simp [h1], ?_⟩
+        intro w hw
+        rcases List.mem_cons.mp hw with rfl | hw
+        · have := ofLe_lt (bs.take 8) (fun b hb => h b (List.mem_of_mem_take hb))
+          have hl8 : (bs.take 8).length = 8 := by rw [List.length_take]; omega
+          rw [hl8, ← W_eq] at this; exact this
+        · exact h2 w hw
+
+theorem fromBytes_wf_clean (bs : List Nat) (h : ∀ b ∈ bs, b < 256) (v : BVec)
+    (hv : BVec.fromBytes bs = some v) : v.WF ∧ v.Clean := by
+  unfold BVec.fromBytes at hv
+  split at hv
+  · cases hv
+  · split at hv
+    · cases hv
+    · cases hr : readWords (nWords (ofLe (bs.take 4))) (bs.drop 4) with
+      | none => rw [hr] at hv; cases hv
+      | some ws =>
+        rw [hr] at hv
+        simp only [Option.some.injEq] at hv
+        subst hv
+        obtain ⟨h1, h2⟩ := readWords_lt _ _ _ (fun b hb => h b (List.mem_of_mem_drop hb)) hr
+        have := clearPadding_wf_clean ws (ofLe (bs.take 4)) h1 h2
+        exact ⟨this.1, this.2.1⟩
+
+/-- `set` on a well-formed vector -/
+theorem set_wf (v : BVec) (hw : v.WF) (i : Nat) (hi : i < v.len) (b : Bool) :
+    ∃ v', v.set i b = .ok v' ∧ v'.WF ∧ v'.len = v.len ∧
+      ∀ q, bitmapNull v'.data q = if q = i then b else bitmapNull v.data q := by
+  obtain ⟨data, len⟩ := v
+  obtain ⟨hlen, hlt⟩ := hw
+  simp only at hlen hlt hi
+  unfold nWords at hlen
+  have hin : i / 64 < data.length := by omega
+  unfold BVec.set
+  simp only
+  rw [if_neg (by omega), List.getElem?_eq_getElem hin]
+  simp only
+  refine ⟨_, rfl, ⟨by simp [nWords]; omega, ?_⟩, rfl, ?_⟩
+  · intro w hw
+    simp only at hw
+    obtain ⟨k, hk, he⟩ := List.getElem_of_mem hw
+    have hk' : k < data.length := by simpa using hk
+    have := List.getElem?_modify (fun w => if b then setBit w (i % 64) else clearBit w (i % 64)) (i / 64) data k
+    rw [List.getElem?_eq_getElem hk, List.getElem?_eq_getElem hk', he] at this
+    simp only [Option.map_eq_map, Option.map_some, Option.some.injEq] at this
+    rw [this]
+    have hwk := hlt _ (List.getElem_mem hk')
+    split
+    · split
+      · exact setBit_lt _ _ hwk (Nat.mod_lt _ (by decide))
+      · unfold clearBit
+        exact Nat.lt_of_le_of_lt Nat.and_le_left hwk
+    · exact hwk
+  · intro q
+    simp only
+    unfold bitmapNull
+    rw [List.getElem?_modify]
+    cases hq : data[q / 64]? with
+    | none =>
+      have : q ≠ i := by
+        intro h; subst h; rw [List.getElem?_eq_getElem hin] at hq; cases hq
+      simp [this]
+    | some w =>
+      simp only [Option.map_eq_map, Option.map_some]
+      by_cases h64 : i / 64 = q / 64
+      · rw [if_pos h64]
+        by_cases hqi : q = i
+        · subst hqi
+          rw [if_pos rfl]
+          cases b
+          · simp only [Bool.false_eq_true, if_false, getBit_eq_testBit, clearBit, Nat.one_shiftLeft,
+              Nat.testBit_and, Nat.testBit_xor, Nat.testBit_two_pow]
+            have hw64 : (W - 1).testBit (q % 64) = true := by
+              have : W - 1 = 2 ^ 64 - 1 := by decide
+              rw [this, Nat.testBit_two_pow_sub_one]; simp; omega
+            simp [hw64]
+          · simp only [if_true, getBit_setBit]; simp
+        · rw [if_neg hqi]
+          have hne : i % 64 ≠ q % 64 := by omega
+          cases b
+          · simp only [Bool.false_eq_true, if_false, getBit_eq_testBit, clearBit, Nat.one_shiftLeft,
+              Nat.testBit_and, Nat.testBit_xor, Nat.testBit_two_pow]
+            have hw64 : (W - 1).testBit (q % 64) = true := by
+              have : W - 1 = 2 ^ 64 - 1 := by decide
+              rw [this, Nat.testBit_two_pow_sub_one]; simp; omega
+            simp [hw64, hne]
+          · simp only [if_true, getBit_setBit]; simp [hne]
+      · rw [if_neg h64]
+        have : q ≠ i := by intro h; subst h; exact h64 rfl
+        rw [if_neg this]
+
+
+theorem empty_wf_clean : BVec.empty.WF ∧ BVec.empty.Clean := by
+  refine ⟨⟨rfl, by intro w hw; cases hw⟩, ?_⟩
+  intro q _; rfl
+
+/-- the bit vectors the public API can produce -/
+inductive BVec.Built : BVec → Prop where
+  | empty : BVec.Built BVec.empty
+  | fromBools (bs : List Bool) : BVec.Built (BVec.fromBools bs)
+  | filled (n : Nat) (b : Bool) : BVec.Built (BVec.filled n b)
+  | push (v : BVec) (b : Bool) (v' : BVec) : BVec.Built v → v.push b = .ok v' → BVec.Built v'
+  | set (v : BVec) (i : Nat) (b : Bool) (v' : BVec) : BVec.Built v → v.set i b = .ok v' → BVec.Built v'
+  | not (v : BVec) : BVec.Built v → BVec.Built v.not
+  | and (a b : BVec) : BVec.Built a → BVec.Built b → BVec.Built (a.and b)
+  | or (a b : BVec) : BVec.Built a → BVec.Built b → BVec.Built (a.or b)
+  | xor (a b : BVec) : BVec.Built a → BVec.Built b → BVec.Built (a.xor b)
+  | fromBytes (bs : List Nat) (v : BVec) : (∀ b ∈ bs, b < 256) → BVec.fromBytes bs = some v → BVec.Built v
+
+/-- F: every bit vector the API produces is well formed and has no bit set at or beyond its length
+(so the derived equality compares exactly the stored bits). -/
+theorem c15b_bitvec_built_clean (v : BVec) (h : v.Built) : v.WF ∧ v.Clean := by
+  induction h with
+  | empty => exact empty_wf_clean
+  | fromBools bs => exact ⟨fromBools_wf bs, fromBools_clean bs⟩
+  | filled n b => exact ⟨(filled_wf_clean n b).1, (filled_wf_clean n b).2.1⟩
+  | push v b v' _ hp ih =>
+    obtain ⟨v2, h1, h2, h3, _, _⟩ := push_clean v ih.1 ih.2 b
+    rw [hp] at h1; cases h1; exact ⟨h2, h3⟩
+  | set v i b v' _ hs ih =>
+    by_cases hi : i < v.len
+    · obtain ⟨v2, h1, h2, h3, h4⟩ := set_wf v ih.1 i hi b
+      rw [hs] at h1; cases h1
+      refine ⟨h2, ?_⟩
+      intro q hq
+      rw [h3] at hq
+      rw [h4, if_neg (by omega)]
+      exact ih.2 q hq
+    · unfold BVec.set at hs
+      rw [if_pos (by omega)] at hs; cases hs
+  | not v _ ih => exact not_wf_clean v ih.1
+  | and a b _ _ iha ihb =>
+    exact zipWords_wf_clean _ (fun x y hx _ => Nat.lt_of_le_of_lt Nat.and_le_left hx) a b iha.1 ihb.1
+  | or a b _ _ iha ihb =>
+    exact zipWords_wf_clean _ (fun x y hx hy => by
+      rw [W_eq2] at *; exact Nat.or_lt_two_pow hx hy) a b iha.1 ihb.1
+  | xor a b _ _ iha ihb =>
+    exact zipWords_wf_clean _ (fun x y hx hy => by
+      rw [W_eq2] at *; exact Nat.xor_lt_two_pow hx hy) a b iha.1 ihb.1
+  | fromBytes bs v hb hv => exact fromBytes_wf_clean bs hb v hv
+
+/-- F: `push` appends — on every vector the API can produce (after `ones`, `not`, `or`, … too): the
+bits read back are the old bits followed by the pushed bit. -/
+theorem c15b_bitvec_push (v : BVec) (hv : v.Built) (b : Bool) (bs : List Bool)
     (hb : v.toBools = .ok bs) :
-    ∃ v', v.push b = .ok v' ∧ v'.WF ∧ v'.Clean ∧ v'.toBools = .ok (bs ++ [b]) := by
+    ∃ v', v.push b = .ok v' ∧ v'.Built ∧ v'.toBools = .ok (bs ++ [b]) := by
+  obtain ⟨hw, hc⟩ := c15b_bitvec_built_clean v hv
   obtain ⟨v', h1, h2, h3, h4, h5⟩ := push_clean v hw hc b
-  refine ⟨v', h1, h2, h3, ?_⟩
+  refine ⟨v', h1, BVec.Built.push v b v' hv h1, ?_⟩
   rw [toBools_wf v hw] at hb
   cases hb
   rw [toBools_wf v' h2, h4, List.range_succ, List.map_append]
@@ -749,33 +1093,24 @@ theorem c15b_bitvec_push_partial (v : BVec) (hw : v.WF) (hc : v.Clean) (b : Bool
     rw [h5, if_neg (by omega)]
   · simp [h5]
 
-/-- W: the unrestricted statement is false. `BitVector::ones(1)` fills the 63 padding bits too, so
-the `false` pushed next reads back as `true`; likewise after `not()`. -/
+/-- W (regression): before the repair `BitVector::ones(1)` filled the 63 unused bits too, so the
+`false` pushed next read back as `true`; likewise after `not()`. Now both read back `false`. -/
 theorem c15b_bitvec_push_dirty_witness :
-    (match (BVec.filled 1 true).push false with
+    (match (Old.BVec.filled 1 true).push false with
       | .ok v => v.toBools
       | _ => .panic) = .ok [true, true] ∧
-    (match (BVec.fromBools [true]).not.push false with
+    (match (Old.BVec.not (BVec.fromBools [true])).push false with
       | .ok v => v.toBools
       | _ => .panic) = .ok [false, true] ∧
-    ¬ (BVec.filled 1 true).Clean := by
-  refine ⟨by decide, by decide, ?_⟩
-  intro h
-  have := h 1 (by decide)
-  revert this; decide
+    (match (BVec.filled 1 true).push false with
+      | .ok v => v.toBools
+      | _ => .panic) = .ok [true, false] ∧
+    (match (BVec.fromBools [true]).not.push false with
+      | .ok v => v.toBools
+      | _ => .panic) = .ok [false, false] ∧
+    BVec.filled 1 true = BVec.fromBools [true] := by
+  refine ⟨by decide, by decide, by decide, by decide, by decide⟩
 
-/-- N: the hypotheses of the partial theorem hold for a non-trivial vector. -/
-theorem c15b_bitvec_push_nonvacuity : (BVec.fromBools [true, false, true]).WF ∧ (BVec.fromBools [true, false, true]).Clean :=
-  ⟨fromBools_wf _, fromBools_clean _⟩
-
-theorem filled_false_wf_clean (n : Nat) : (BVec.filled n false).WF ∧ (BVec.filled n false).Clean := by
-  refine ⟨⟨by simp [BVec.filled], ?_⟩, ?_⟩
-  · intro w hw; simp [BVec.filled] at hw; rw [hw.2]; decide
-  · intro q _; simp only [BVec.filled, Bool.false_eq_true, if_false]; exact bitmapNull_replicate _ _
-
-theorem empty_wf_clean : BVec.empty.WF ∧ BVec.empty.Clean := by
-  refine ⟨⟨rfl, by intro w hw; cases hw⟩, ?_⟩
-  intro q _; rfl
 
 /-- pushing a whole list onto a clean vector -/
 theorem pushAll_clean (v : BVec) (hw : v.WF) (hc : v.Clean) (bs : List Bool) :
@@ -823,15 +1158,16 @@ theorem c15b_bitvec_collect (bs : List Bool) :
   · rw [List.getElem?_eq_none (by simpa using Nat.le_of_not_lt hi),
         List.getElem?_eq_none (by omega)]; rfl
 
-/-- serialisation round trip for any well-formed bit vector -/
-theorem fromBytes_toBytes (v : BVec) (hw : v.WF) (hl : v.len < 4294967296) :
+/-- serialisation round trip for any well-formed bit vector with clear padding -/
+theorem fromBytes_toBytes (v : BVec) (hw : v.WF) (hc : v.Clean) (hl : v.len < 4294967296) :
     BVec.fromBytes v.toBytes = some v := by
+  have hid := clearPadding_id v hw hc
   obtain ⟨data, len⟩ := v
   obtain ⟨hlen, hlt⟩ := hw
   simp only at hlen hlt hl
   have l4 : (leBytes 4 (len % 4294967296)).length = 4 := leBytes_length _ _
   have lf : ((data.map (leBytes 8)).flatten).length = 8 * data.length := by
-    clear hlen hlt
+    clear hlen hlt hid hc
     induction data with
     | nil => rfl
     | cons w ws ih => simp [List.flatten_cons, leBytes_length, ih]; omega
@@ -845,13 +1181,18 @@ theorem fromBytes_toBytes (v : BVec) (hw : v.WF) (hl : v.len < 4294967296) :
   have := readWords_flatten data [] hlt
   rw [List.append_nil] at this
   rw [← hlen, this]
+  simp only
+  rw [hid]
 
-/-- F: serialising a bit vector and reading it back changes nothing (whatever its padding bits;
-the length field is a `u32`). -/
+/-- F: serialising a bit vector and reading it back changes nothing (the length field is a `u32`). -/
 theorem c15b_bitvec_bytes_roundtrip (bs : List Bool) (hl : bs.length < 4294967296) :
     BVec.fromBytes (BVec.fromBools bs).toBytes = some (BVec.fromBools bs) :=
-  fromBytes_toBytes _ (fromBools_wf bs) hl
+  fromBytes_toBytes _ (fromBools_wf bs) (fromBools_clean bs) hl
 
+/-- F: the same for every vector the API can produce. -/
+theorem c15b_bitvec_built_bytes_roundtrip (v : BVec) (hv : v.Built) (hl : v.len < 4294967296) :
+    BVec.fromBytes v.toBytes = some v :=
+  fromBytes_toBytes v (c15b_bitvec_built_clean v hv).1 (c15b_bitvec_built_clean v hv).2 hl
 
 /-! ### byte formats of the integer codecs (needed by the codec selector) -/
 
@@ -958,23 +1299,28 @@ theorem c15b_pack_bytes_roundtrip (vs : List Nat) (hb : ∀ v ∈ vs, v < W)
 /-- F: serialising a delta + bit-packed block and reading it back changes nothing. -/
 theorem c15b_dbp_bytes_roundtrip (vs : List Nat) (hb : ∀ v ∈ vs, v < W)
     (hc : vs.length < 4294967296) : DBP.fromBytes (DBP.encode vs).toBytes = .ok (DBP.encode vs) := by
-  have key : ∀ (base : Nat) (ds : List Nat), base < W → (∀ v ∈ ds, v < W) → ds.length < 4294967296 →
-      DBP.fromBytes (DBP.mk base (pack ds)).toBytes = .ok (DBP.mk base (pack ds)) := by
-    intro base ds hbase hds hlen
+  have key : ∀ (base : Nat) (p : Packed), base < W → Packed.fromBytes p.toBytes = .ok p →
+      DBP.fromBytes (DBP.mk base p).toBytes = .ok (DBP.mk base p) := by
+    intro base p hbase hp
     have l8 : (leBytes 8 base).length = 8 := leBytes_length _ _
     unfold DBP.fromBytes DBP.toBytes
     simp only
     rw [if_neg (by simp only [List.length_append, l8]; omega)]
-    rw [drop_append_len _ _ 8 l8, take_append_len _ _ 8 l8, c15b_pack_bytes_roundtrip ds hds hlen]
+    rw [drop_append_len _ _ 8 l8, take_append_len _ _ 8 l8, hp]
     simp only
     rw [ofLe_leBytes 8 _ (by rw [← W_eq]; exact hbase)]
   cases vs with
-  | nil => exact key 0 [] (by decide) (by intro v hv; cases hv) (by decide)
+  | nil => exact key 0 (pack []) (by decide) (by decide)
   | cons a t =>
-    have : DBP.encode (a :: t) = ⟨a, pack (satDeltas (a :: t))⟩ := rfl
-    rw [this]
-    apply key a _ (hb a (by simp)) (satDeltas_lt _ hb)
-    rw [satDeltas_length]; simp at hc ⊢; omega
+    by_cases hd : satDeltas (a :: t) = []
+    · have : DBP.encode (a :: t) = ⟨a, packWithBits [] 1⟩ := by simp only [DBP.encode, if_pos hd]
+      rw [this]
+      exact key a _ (hb a (by simp)) (by decide)
+    · have : DBP.encode (a :: t) = ⟨a, pack (satDeltas (a :: t))⟩ := by simp only [DBP.encode, if_neg hd]
+      rw [this]
+      apply key a _ (hb a (by simp))
+      apply c15b_pack_bytes_roundtrip _ (satDeltas_lt _ hb)
+      rw [satDeltas_length]; simp at hc ⊢; omega
 
 theorem readRuns_flatten (rs : List (Nat × Nat)) (h : ∀ r ∈ rs, r.1 < W ∧ r.2 < W) :
     readRuns rs.length ((rs.map (fun (v, n) => leBytes 8 v ++ leBytes 8 n)).flatten) = some rs := by
@@ -1137,11 +1483,11 @@ theorem isSortedB_sorted (vs : List Nat) (h : isSortedB vs = true) : Sorted vs :
       simp only [isSortedB, Bool.and_eq_true, decide_eq_true_eq] at h
       exact ⟨h.1, ih h.2⟩
 
-/-- whatever codec is used — provided delta + bit-packing is only used on sorted input other than
-`[0]` — decompression returns the input -/
+/-- whatever codec is used — provided delta + bit-packing is only used on sorted input —
+decompression returns the input -/
 theorem decompress_encodeWith (vs : List Nat) (c : IntCodec) (hb : ∀ v ∈ vs, v < W)
     (hl : vs.length < 4294967296)
-    (hs : ∀ b, c = .deltaBitPacked b → Sorted vs ∧ vs ≠ [0]) :
+    (hs : ∀ b, c = .deltaBitPacked b → Sorted vs) :
     decompressInts (encodeWith vs c) = .ok vs := by
   cases c with
   | none =>
@@ -1152,28 +1498,15 @@ theorem decompress_encodeWith (vs : List Nat) (c : IntCodec) (hb : ∀ v ∈ vs,
     rw [c15b_pack_bytes_roundtrip vs hb hl]
     exact c15_unpack_pack vs hb
   | deltaBitPacked b =>
-    obtain ⟨h1, h2⟩ := hs b rfl
+    have h1 := hs b rfl
     simp only [encodeWith, decompressInts]
     rw [c15b_dbp_bytes_roundtrip vs hb hl]
-    exact c15_delta_bitpacked_roundtrip_partial vs h1 hb h2
+    exact (c15_delta_bitpacked_roundtrip vs h1 hb).1
   | runLength =>
     obtain ⟨r, h1, h2, _, h4⟩ := c15b_rle_bytes_roundtrip vs hb hl
     simp only [encodeWith, decompressInts]
-    have l8 : (leBytes 8 (Rle.encode vs).runs.length).length = 8 := leBytes_length _ _
-    have hlt : (Rle.encode vs).runs.length < 4294967296 := by
-      cases vs with
-      | nil => decide
-      | cons v t =>
-        obtain ⟨h1, _⟩ := rleLoop_bounds v 1 t (t.length + 1) (hb v (by simp))
-          (fun u hu => hb u (by simp [hu])) (by omega)
-        simp only [Rle.encode]; simp only [List.length_cons] at hl; omega
-    have hcount : ofLe ((Rle.encode vs).toBytes.take 8) = (Rle.encode vs).runs.length := by
-      unfold Rle.toBytes
-      rw [take_append_len _ _ 8 l8, ofLe_leBytes 8 _ (by
-        rw [← W_eq]; have : (4294967296 : Nat) < W := by decide
-        omega)]
     unfold rleDecompress
-    rw [if_neg (by rw [hcount]; intro h; have := h.2; omega), h1]
+    rw [h1]
     simp only [h2]
 
 theorem selectInts_dbp (vs : List Nat) (b : Nat) (h : selectInts vs = .deltaBitPacked b) :
@@ -1197,9 +1530,7 @@ theorem c15b_selector_roundtrip (vs : List Nat) (hb : ∀ v ∈ vs, v < W) (hl :
   unfold compressInts
   apply decompress_encodeWith vs _ hb hl
   intro b hsel
-  obtain ⟨h1, h2⟩ := selectInts_dbp vs b hsel
-  refine ⟨isSortedB_sorted vs h1, ?_⟩
-  intro h; rw [h] at h2; simp at h2
+  exact isSortedB_sorted vs (selectInts_dbp vs b hsel).1
 
 /-- F: the same through the zig-zag front end for `i64` sequences (`compress_signed_integers`). -/
 theorem c15b_selector_signed_roundtrip (vs : List (BitVec 64)) (hl : vs.length < 4294967296) :
@@ -1222,6 +1553,12 @@ theorem c15b_selector_bool_roundtrip (bs : List Bool) (hl : bs.length < 42949672
   simp only [compressBools, decompressBools]
   rw [c15b_bitvec_bytes_roundtrip bs hl]
   exact c15b_bitvec_roundtrip bs
+
+/-- W (regression): a run count of 2^60 in the header made the old `RunLengthEncoding::from_bytes`
+panic while reserving memory ("capacity overflow"); now it is the ordinary read error. -/
+theorem c15b_rle_capacity_witness :
+    Old.rleDecompress (leBytes 8 1152921504606846976) = .panic ∧
+    rleDecompress (leBytes 8 1152921504606846976) = .err := by decide
 
 /-- N: the selector really uses the four codecs. -/
 theorem c15b_selector_nonvacuity : selectInts [1, 1, 1, 1, 1, 1, 1, 1, 1] = .runLength ∧
@@ -1461,128 +1798,455 @@ theorem filter_length_lt (c : PCol) (p : Nat × PV → Bool) (hl : c.values.leng
   have h2 := List.length_filter_le p c.values
   omega
 
-theorem compressAsInts_restore (c : PCol) (hk : KeysNodup c.values) (hn : c.compressed = none)
+/-! ### the logical content of a column: hot values and the pairs its compressed part stands for -/
+
+/-- `reinsertF` over ids paired with values is a fold of inserts -/
+theorem reinsertF_eq_foldl' {α : Type} (mk : α → PV) (get : Nat → Option α) (pairs : HotMap)
+    (m : HotMap) (i0 : Nat)
+    (hget : ∀ j (hj : j < pairs.length), (get (i0 + j)).map mk = some pairs[j].2) :
+    reinsertF mk get m i0 (pairs.map (·.1)) = pairs.foldl (fun m p => hmInsert m p.1 p.2) m := by
+  induction pairs generalizing m i0 with
+  | nil => rfl
+  | cons p ps ih =>
+    simp only [List.map_cons, reinsertF, List.foldl_cons]
+    have h0 := hget 0 (by simp)
+    simp only [Nat.add_zero, List.getElem_cons_zero] at h0
+    cases hg : get i0 with
+    | none => rw [hg] at h0; cases h0
+    | some x =>
+      rw [hg] at h0
+      simp only [Option.map_some, Option.some.injEq] at h0
+      simp only [h0]
+      apply ih
+      intro j hj
+      have := hget (j + 1) (by simp; omega)
+      rw [show i0 + 1 + j = i0 + (j + 1) by omega, this]; rfl
+
+/-- what a compressed part stands for: the pairs (id, value), in position order -/
+def CCDok : CCD → HotMap → Prop
+  | .ints cd ids, pairs => ids = pairs.map (·.1) ∧
+      ∃ ws, decompressInts cd = .ok ws ∧
+        ws.map (fun w => PV.int (zzDec (BitVec.ofNat 64 w))) = pairs.map (·.2)
+  | .strs enc ids, pairs => ids = pairs.map (·.1) ∧
+      ∀ j (hj : j < pairs.length), (enc.get j).map PV.str = some pairs[j].2
+  | .bools cd ids, pairs => ids = pairs.map (·.1) ∧
+      ∃ bs, decompressBools cd = .ok bs ∧ bs.map PV.bool = pairs.map (·.2)
+
+theorem CCDok.ids_eq (d : CCD) (pairs : HotMap) (h : CCDok d pairs) : d.ids = pairs.map (·.1) := by
+  cases d <;> exact h.1
+
+theorem CCDok.valueAt (d : CCD) (pairs : HotMap) (h : CCDok d pairs) (j : Nat) (hj : j < pairs.length) :
+    d.valueAt j = .ok (some pairs[j].2) := by
+  cases d with
+  | ints cd ids =>
+    obtain ⟨_, ws, h1, h2⟩ := h
+    simp only [CCD.valueAt, h1]
+    have := congrArg (fun l => l[j]?) h2
+    simp only [List.getElem?_map, List.getElem?_eq_getElem hj, Option.map_some] at this
+    rw [this]
+  | strs enc ids =>
+    simp only [CCD.valueAt, h.2 j hj]
+  | bools cd ids =>
+    obtain ⟨_, bs, h1, h2⟩ := h
+    simp only [CCD.valueAt, h1]
+    have := congrArg (fun l => l[j]?) h2
+    simp only [List.getElem?_map, List.getElem?_eq_getElem hj, Option.map_some] at this
+    rw [this]
+
+/-- decompression puts the pairs back into the hot buffer -/
+theorem CCDok.decompress (c : PCol) (d : CCD) (pairs : HotMap) (hc : c.compressed = some d)
+    (h : CCDok d pairs) :
+    c.decompressAll = .ok { c with values := pairs.foldl (fun m p => hmInsert m p.1 p.2) c.values,
+                                   compressed := none, compressedCount := 0 } := by
+  unfold PCol.decompressAll
+  rw [hc]
+  cases d with
+  | ints cd ids =>
+    obtain ⟨hid, ws, h1, h2⟩ := h
+    simp only [h1, decodeSigned]
+    congr 2
+    rw [hid]
+    apply reinsertF_eq_foldl'
+    intro j hj
+    have := congrArg (fun l => l[j]?) h2
+    simp only [List.getElem?_map, List.getElem?_eq_getElem hj, Option.map_some] at this
+    rw [Nat.zero_add, List.getElem?_map]
+    cases hw : ws[j]? with
+    | none => rw [hw] at this; cases this
+    | some w => rw [hw] at this; simpa using this
+  | strs enc ids =>
+    obtain ⟨hid, h2⟩ := h
+    simp only
+    congr 2
+    rw [hid]
+    apply reinsertF_eq_foldl'
+    intro j hj
+    rw [Nat.zero_add]; exact h2 j hj
+  | bools cd ids =>
+    obtain ⟨hid, bs, h1, h2⟩ := h
+    simp only [h1]
+    congr 2
+    rw [hid]
+    apply reinsertF_eq_foldl'
+    intro j hj
+    have := congrArg (fun l => l[j]?) h2
+    simp only [List.getElem?_map, List.getElem?_eq_getElem hj, Option.map_some] at this
+    rw [Nat.zero_add]; exact this
+
+/-- invariant of a column: unique hot keys; the compressed part stands for `pairs`, whose ids are
+distinct and absent from the hot buffer -/
+structure PInv (c : PCol) (pairs : HotMap) : Prop where
+  keys : KeysNodup c.values
+  comp : match c.compressed with
+    | none => pairs = []
+    | some d => CCDok d pairs
+  pk : (pairs.map (·.1)).Nodup
+  disj : ∀ id, id ∈ pairs.map (·.1) → hmGet c.values id = none
+
+/-- the value an entity has: hot buffer first, then the compressed pairs -/
+def logical (c : PCol) (pairs : HotMap) (id : Nat) : Option PV :=
+  match hmGet c.values id with
+  | some v => some v
+  | none => (pairs.find? (fun p => p.1 == id)).map (·.2)
+
+theorem find?_of_idxOf? (pairs : HotMap) (id pos : Nat)
+    (h : (pairs.map (·.1)).idxOf? id = some pos) :
+    ∃ hp : pos < pairs.length, pairs.find? (fun p => p.1 == id) = some pairs[pos] := by
+  induction pairs generalizing pos with
+  | nil => simp at h
+  | cons p ps ih =>
+    simp only [List.map_cons, List.idxOf?_cons] at h
+    by_cases hp : p.1 = id
+    · have hb : (p.1 == id) = true := by simpa using hp
+      rw [hb] at h
+      simp only [if_true, Option.some.injEq] at h
+      subst h
+      exact ⟨by simp, by simp [List.find?_cons, hb]⟩
+    · have hb : (p.1 == id) = false := by simpa using hp
+      rw [hb] at h
+      cases hi : (ps.map (·.1)).idxOf? id with
+      | none => rw [hi] at h; simp at h
+      | some q =>
+        rw [hi] at h
+        simp at h
+        subst h
+        obtain ⟨hq, hf⟩ := ih q hi
+        exact ⟨by simp; omega, by simp [List.find?_cons, hb, hf]⟩
+
+theorem find?_none_of_idxOf? (pairs : HotMap) (id : Nat)
+    (h : (pairs.map (·.1)).idxOf? id = none) : pairs.find? (fun p => p.1 == id) = none := by
+  induction pairs with
+  | nil => rfl
+  | cons p ps ih =>
+    simp only [List.map_cons, List.idxOf?_cons] at h
+    by_cases hp : p.1 = id
+    · have hb : (p.1 == id) = true := by simpa using hp
+      rw [hb] at h; simp at h
+    · have hb : (p.1 == id) = false := by simpa using hp
+      rw [hb] at h
+      cases hi : (ps.map (·.1)).idxOf? id with
+      | none => simp [List.find?_cons, hb, ih hi]
+      | some q => rw [hi] at h; simp at h
+
+theorem idxOf?_none_iff (l : List Nat) (id : Nat) : l.idxOf? id = none ↔ id ∉ l := by
+  induction l with
+  | nil => simp
+  | cons x xs ih =>
+    rw [List.idxOf?_cons]
+    by_cases hx : x = id
+    · have hb : (x == id) = true := by simpa using hx
+      simp [hb, hx]
+    · have hb : (x == id) = false := by simpa using hx
+      rw [hb]
+      have hne : id ≠ x := fun h => hx h.symm
+      cases hi : xs.idxOf? id with
+      | none => simp [hne, ih.mp hi]
+      | some q =>
+        simp only [Bool.false_eq_true, if_false, Option.map_some, reduceCtorEq, false_iff,
+          Decidable.not_not, List.mem_cons]
+        right
+        apply Classical.byContradiction
+        intro hn; rw [ih.mpr hn] at hi; cases hi
+
+/-- F (per read): `get` returns the logical value — also for compressed entities -/
+theorem get_logical (c : PCol) (pairs : HotMap) (inv : PInv c pairs) (id : Nat) :
+    c.get id = .ok (logical c pairs id) := by
+  unfold PCol.get logical
+  cases hh : hmGet c.values id with
+  | some v => rfl
+  | none =>
+    simp only
+    unfold PCol.getCompressed
+    have hcomp := inv.comp
+    cases hc : c.compressed with
+    | none =>
+      rw [hc] at hcomp
+      simp only at hcomp
+      subst hcomp; rfl
+    | some d =>
+      rw [hc] at hcomp
+      simp only at hcomp ⊢
+      rw [CCDok.ids_eq d pairs hcomp]
+      cases hi : (pairs.map (·.1)).idxOf? id with
+      | none => simp only; rw [find?_none_of_idxOf? pairs id hi]; rfl
+      | some pos =>
+        obtain ⟨hp, hf⟩ := find?_of_idxOf? pairs id pos hi
+        simp only
+        rw [CCDok.valueAt d pairs hcomp pos hp, hf]; rfl
+
+theorem hmInsert_length_le (m : HotMap) (k : Nat) (v : PV) : (hmInsert m k v).length ≤ m.length + 1 := by
+  induction m with
+  | nil => simp [hmInsert]
+  | cons kv r ih =>
+    obtain ⟨k', w⟩ := kv
+    unfold hmInsert
+    split
+    · simp
+    · simp only [List.length_cons]; omega
+
+theorem foldl_insert_props (pairs : HotMap) (m : HotMap) (hk : KeysNodup m) :
+    KeysNodup (pairs.foldl (fun m p => hmInsert m p.1 p.2) m) ∧
+    (pairs.foldl (fun m p => hmInsert m p.1 p.2) m).length ≤ m.length + pairs.length := by
+  induction pairs generalizing m with
+  | nil => exact ⟨hk, by simp⟩
+  | cons p ps ih =>
+    rw [List.foldl_cons]
+    obtain ⟨h1, h2⟩ := ih (hmInsert m p.1 p.2) (keysNodup_insert m hk p.1 p.2)
+    refine ⟨h1, ?_⟩
+    have := hmInsert_length_le m p.1 p.2
+    simp only [List.length_cons]; omega
+
+/-- with disjoint keys, hot-then-pairs is the same lookup as pairs-inserted-over-hot -/
+theorem logical_eq_foldl (c : PCol) (pairs : HotMap) (pk : (pairs.map (·.1)).Nodup)
+    (disj : ∀ id, id ∈ pairs.map (·.1) → hmGet c.values id = none) (id : Nat) :
+    logical c pairs id = hmGet (pairs.foldl (fun m p => hmInsert m p.1 p.2) c.values) id := by
+  have h := hmGet_foldl_insert (fun v : PV => v) pairs pk c.values id
+  rw [h]
+  unfold logical
+  cases hf : pairs.find? (fun p => p.1 == id) with
+  | none => cases hmGet c.values id <;> rfl
+  | some p =>
+    have hmem : p ∈ pairs := List.mem_of_find?_eq_some hf
+    have hid : p.1 = id := by have := List.find?_some hf; simpa using this
+    rw [disj id (by rw [← hid]; exact List.mem_map.mpr ⟨p, hmem, rfl⟩)]
+    rfl
+
+theorem filter_split_length (values : HotMap) (sel : PV → Bool) :
+    (values.filter (fun kv => !sel kv.2)).length + (sortById (values.filter (fun kv => sel kv.2))).length =
+      values.length := by
+  rw [(sortById_perm _).length_eq, ← List.countP_eq_length_filter, ← List.countP_eq_length_filter]
+  have h := List.length_eq_countP_add_countP (p := fun kv : Nat × PV => sel kv.2) (l := values)
+  have e : values.countP (fun kv => !sel kv.2) = values.countP (fun a => decide ¬sel a.2 = true) := by
+    apply List.countP_congr; intro x _; cases sel x.2 <;> simp
+  rw [e]; omega
+
+/-- moving the selected entries of a hot buffer into a compressed part that stands for them keeps
+the invariant and every logical value -/
+theorem split_inv (c c' : PCol) (hk : KeysNodup c.values) (sel : PV → Bool) (d : CCD)
+    (hv : c'.values = c.values.filter (fun kv => !sel kv.2)) (hc : c'.compressed = some d)
+    (hd : CCDok d (sortById (c.values.filter (fun kv => sel kv.2)))) :
+    PInv c' (sortById (c.values.filter (fun kv => sel kv.2))) ∧
+    (∀ id, logical c' (sortById (c.values.filter (fun kv => sel kv.2))) id = hmGet c.values id) ∧
+    c'.values.length + (sortById (c.values.filter (fun kv => sel kv.2))).length = c.values.length := by
+  have hperm := sortById_perm (c.values.filter (fun kv => sel kv.2))
+  have hkf : KeysNodup (c.values.filter (fun kv => sel kv.2)) :=
+    keysNodup_sublist _ _ List.filter_sublist hk
+  have hks : ((sortById (c.values.filter (fun kv => sel kv.2))).map (·.1)).Nodup :=
+    (List.Perm.nodup_iff (List.Perm.map _ hperm)).mpr hkf
+  have hkn : KeysNodup c'.values := by rw [hv]; exact keysNodup_sublist _ _ List.filter_sublist hk
+  have hdisj : ∀ id, id ∈ (sortById (c.values.filter (fun kv => sel kv.2))).map (·.1) →
+      hmGet c'.values id = none := by
+    intro id hid
+    obtain ⟨kv, hkv, hkid⟩ := List.mem_map.mp hid
+    have hkv' := hperm.mem_iff.mp hkv
+    obtain ⟨hin, hs⟩ := List.mem_filter.mp hkv'
+    cases hg : hmGet c'.values id with
+    | none => rfl
+    | some v =>
+      have hm := hmGet_some_mem _ _ _ hg
+      rw [hv] at hm
+      obtain ⟨hin2, hs2⟩ := List.mem_filter.mp hm
+      have e1 := hmGet_of_mem c.values hk id v hin2
+      have e2 := hmGet_of_mem c.values hk kv.1 kv.2 hin
+      rw [hkid, e1] at e2
+      cases e2
+      simp only at hs2
+      rw [hs] at hs2; cases hs2
+  refine ⟨⟨hkn, by rw [hc]; exact hd, hks, hdisj⟩, ?_, by rw [hv]; exact filter_split_length c.values sel⟩
+  intro id
+  rw [logical_eq_foldl c' _ hks hdisj, hv]
+  have := restore_get c.values hk sel (fun v : PV => v) (fun v => v) (fun _ _ => rfl)
+    (sortById (c.values.filter (fun kv => sel kv.2))) hperm id
+  have e : (sortById (c.values.filter (fun kv => sel kv.2))).map (fun kv => (kv.1, kv.2)) =
+      sortById (c.values.filter (fun kv => sel kv.2)) := by
+    simp
+  rw [e] at this
+  exact this
+
+theorem compressAsInts_inv (c : PCol) (hk : KeysNodup c.values) (hn : c.compressed = none)
     (hl : c.values.length < 4294967296) :
-    ∃ c', c.compressAsInts.decompressAll = .ok c' ∧ c'.compressed = none ∧ ∀ id, c'.get id = c.get id := by
+    ∃ pairs, PInv c.compressAsInts pairs ∧ (∀ id, logical c.compressAsInts pairs id = hmGet c.values id) ∧
+      c.compressAsInts.values.length + pairs.length ≤ c.values.length := by
+  have hnone : PInv c [] ∧ (∀ id, logical c [] id = hmGet c.values id) ∧
+      c.values.length + ([] : HotMap).length ≤ c.values.length := by
+    refine ⟨⟨hk, by rw [hn], List.nodup_nil, by intro id h; cases h⟩, ?_, by simp⟩
+    intro id; unfold logical; cases hmGet c.values id <;> rfl
   unfold PCol.compressAsInts
   simp only
   split
-  · exact ⟨c, decompressAll_of_none c hn, hn, fun _ => rfl⟩
+  · exact ⟨[], hnone⟩
   · split
-    · unfold PCol.decompressAll
-      simp only
-      rw [c15b_selector_signed_roundtrip _ (by
-        rw [List.length_map]; exact filter_length_lt c _ hl)]
-      simp only
-      refine ⟨_, rfl, rfl, ?_⟩
-      intro id
-      unfold PCol.get
-      simp only
-      have e := reinsertF_eq_foldl PV.int
-        (fun i => (List.map (fun kv => intOf kv.2) (sortById (c.values.filter (fun kv => isInt kv.2))))[i]?)
-        ((sortById (c.values.filter (fun kv => isInt kv.2))).map (fun kv => (kv.1, intOf kv.2)))
-        (c.values.filter (fun kv => !isInt kv.2)) 0 (by
-          intro j hj
-          simp only [List.length_map] at hj
-          simp [List.getElem?_eq_getElem hj])
-      rw [List.map_map] at e
-      have e2 : ((fun x : Nat × BitVec 64 => x.1) ∘ fun kv : Nat × PV => (kv.1, intOf kv.2)) = (fun kv => kv.1) := rfl
-      rw [e2] at e
-      rw [e]
-      exact restore_get c.values hk isInt PV.int intOf (by
-        intro v hv; cases v <;> simp [isInt] at hv; rfl) _ (sortById_perm _) id
-    · exact ⟨c, decompressAll_of_none c hn, hn, fun _ => rfl⟩
+    · refine ⟨sortById (c.values.filter (fun kv => isInt kv.2)), ?_⟩
+      have := split_inv c { c with
+          compressed := some (.ints (compressSigned ((sortById (c.values.filter (fun kv => isInt kv.2))).map (fun kv => intOf kv.2)))
+            ((sortById (c.values.filter (fun kv => isInt kv.2))).map (·.1))),
+          compressedCount := (sortById (c.values.filter (fun kv => isInt kv.2))).length,
+          values := c.values.filter (fun kv => !isInt kv.2) } hk isInt _ rfl rfl (by
+        refine ⟨rfl, _, c15b_selector_roundtrip _ (by
+          intro v hv
+          simp only [List.mem_map] at hv
+          obtain ⟨x, _, rfl⟩ := hv
+          rw [W_eq2]; exact (zzEnc _).isLt) (by
+          rw [List.length_map, List.length_map]; exact filter_length_lt c _ hl), ?_⟩
+        rw [List.map_map, List.map_map]
+        apply List.map_congr_left
+        intro kv hkv
+        have hkv' := (sortById_perm _).mem_iff.mp hkv
+        have hs := (List.mem_filter.mp hkv').2
+        simp only [Function.comp]
+        have : BitVec.ofNat 64 (zzEnc (intOf kv.2)).toNat = zzEnc (intOf kv.2) := by simp
+        rw [this, zzDec_zzEnc']
+        cases hv : kv.2 <;> simp [hv, isInt] at hs ⊢
+        rfl)
+      exact ⟨this.1, this.2.1, by rw [this.2.2]; exact Nat.le_refl _⟩
+    · exact ⟨[], hnone⟩
 
-theorem compressAsBools_restore (c : PCol) (hk : KeysNodup c.values) (hn : c.compressed = none)
+theorem compressAsBools_inv (c : PCol) (hk : KeysNodup c.values) (hn : c.compressed = none)
     (hl : c.values.length < 4294967296) :
-    ∃ c', c.compressAsBools.decompressAll = .ok c' ∧ c'.compressed = none ∧ ∀ id, c'.get id = c.get id := by
+    ∃ pairs, PInv c.compressAsBools pairs ∧ (∀ id, logical c.compressAsBools pairs id = hmGet c.values id) ∧
+      c.compressAsBools.values.length + pairs.length ≤ c.values.length := by
+  have hnone : PInv c [] ∧ (∀ id, logical c [] id = hmGet c.values id) ∧
+      c.values.length + ([] : HotMap).length ≤ c.values.length := by
+    refine ⟨⟨hk, by rw [hn], List.nodup_nil, by intro id h; cases h⟩, ?_, by simp⟩
+    intro id; unfold logical; cases hmGet c.values id <;> rfl
   unfold PCol.compressAsBools
   simp only
   split
-  · exact ⟨c, decompressAll_of_none c hn, hn, fun _ => rfl⟩
-  · unfold PCol.decompressAll
-    simp only
-    rw [c15b_selector_bool_roundtrip _ (by
-      rw [List.length_map]; exact filter_length_lt c _ hl)]
-    simp only
-    refine ⟨_, rfl, rfl, ?_⟩
-    intro id
-    unfold PCol.get
-    simp only
-    have e := reinsertF_eq_foldl PV.bool
-      (fun i => (List.map (fun kv => boolOf kv.2) (sortById (c.values.filter (fun kv => isBool kv.2))))[i]?)
-      ((sortById (c.values.filter (fun kv => isBool kv.2))).map (fun kv => (kv.1, boolOf kv.2)))
-      (c.values.filter (fun kv => !isBool kv.2)) 0 (by
-        intro j hj
-        simp only [List.length_map] at hj
-        simp [List.getElem?_eq_getElem hj])
-    rw [List.map_map] at e
-    have e2 : ((fun x : Nat × Bool => x.1) ∘ fun kv : Nat × PV => (kv.1, boolOf kv.2)) = (fun kv => kv.1) := rfl
-    rw [e2] at e
-    rw [e]
-    exact restore_get c.values hk isBool PV.bool boolOf (by
-      intro v hv; cases v <;> simp [isBool] at hv; rfl) _ (sortById_perm _) id
+  · exact ⟨[], hnone⟩
+  · refine ⟨sortById (c.values.filter (fun kv => isBool kv.2)), ?_⟩
+    have := split_inv c { c with
+        compressed := some (.bools (compressBools ((sortById (c.values.filter (fun kv => isBool kv.2))).map (fun kv => boolOf kv.2)))
+          ((sortById (c.values.filter (fun kv => isBool kv.2))).map (·.1))),
+        compressedCount := (sortById (c.values.filter (fun kv => isBool kv.2))).length,
+        values := c.values.filter (fun kv => !isBool kv.2) } hk isBool _ rfl rfl (by
+      refine ⟨rfl, _, c15b_selector_bool_roundtrip _ (by
+        rw [List.length_map]; exact filter_length_lt c _ hl), ?_⟩
+      rw [List.map_map]
+      apply List.map_congr_left
+      intro kv hkv
+      have hkv' := (sortById_perm _).mem_iff.mp hkv
+      have hs := (List.mem_filter.mp hkv').2
+      simp only [Function.comp]
+      cases hv : kv.2 <;> simp [hv, isBool] at hs ⊢
+      rfl)
+    exact ⟨this.1, this.2.1, by rw [this.2.2]; exact Nat.le_refl _⟩
 
-theorem compressAsStrs_restore (c : PCol) (hk : KeysNodup c.values) (hn : c.compressed = none)
+theorem compressAsStrs_inv (c : PCol) (hk : KeysNodup c.values) (hn : c.compressed = none)
     (hl : c.values.length < 4294967296) :
-    ∃ c', c.compressAsStrs.decompressAll = .ok c' ∧ c'.compressed = none ∧ ∀ id, c'.get id = c.get id := by
+    ∃ pairs, PInv c.compressAsStrs pairs ∧ (∀ id, logical c.compressAsStrs pairs id = hmGet c.values id) ∧
+      c.compressAsStrs.values.length + pairs.length ≤ c.values.length := by
+  have hnone : PInv c [] ∧ (∀ id, logical c [] id = hmGet c.values id) ∧
+      c.values.length + ([] : HotMap).length ≤ c.values.length := by
+    refine ⟨⟨hk, by rw [hn], List.nodup_nil, by intro id h; cases h⟩, ?_, by simp⟩
+    intro id; unfold logical; cases hmGet c.values id <;> rfl
   unfold PCol.compressAsStrs
   simp only
   split
-  · exact ⟨c, decompressAll_of_none c hn, hn, fun _ => rfl⟩
+  · exact ⟨[], hnone⟩
   · split
-    · unfold PCol.decompressAll
-      simp only
-      refine ⟨_, rfl, rfl, ?_⟩
-      intro id
-      unfold PCol.get
-      simp only
-      have hlen := filter_length_lt c (fun kv => isStr kv.2) hl
-      have e := reinsertF_eq_foldl PV.str
-        (dictOf (List.map (fun kv => some (strOf kv.2)) (sortById (c.values.filter (fun kv => isStr kv.2))))).get
-        ((sortById (c.values.filter (fun kv => isStr kv.2))).map (fun kv => (kv.1, strOf kv.2)))
-        (c.values.filter (fun kv => !isStr kv.2)) 0 (by
-          intro j hj
-          simp only [List.length_map] at hj
-          rw [Nat.zero_add, c15b_dict_get _ (by rw [List.length_map]; exact hlen)]
-          simp [List.getElem?_eq_getElem hj])
-      rw [List.map_map] at e
-      have e2 : ((fun x : Nat × Str => x.1) ∘ fun kv : Nat × PV => (kv.1, strOf kv.2)) = (fun kv => kv.1) := rfl
-      rw [e2] at e
-      rw [e]
-      exact restore_get c.values hk isStr PV.str strOf (by
-        intro v hv; cases v <;> simp [isStr] at hv; rfl) _ (sortById_perm _) id
-    · exact ⟨c, decompressAll_of_none c hn, hn, fun _ => rfl⟩
+    · refine ⟨sortById (c.values.filter (fun kv => isStr kv.2)), ?_⟩
+      have := split_inv c { c with
+          compressed := some (.strs (dictOf ((sortById (c.values.filter (fun kv => isStr kv.2))).map (fun kv => some (strOf kv.2))))
+            ((sortById (c.values.filter (fun kv => isStr kv.2))).map (·.1))),
+          compressedCount := (sortById (c.values.filter (fun kv => isStr kv.2))).length,
+          values := c.values.filter (fun kv => !isStr kv.2) } hk isStr _ rfl rfl (by
+        refine ⟨rfl, ?_⟩
+        intro j hj
+        rw [c15b_dict_get _ (by rw [List.length_map]; exact filter_length_lt c _ hl)]
+        simp only [List.getElem?_map, List.getElem?_eq_getElem hj, Option.map_some, Option.join]
+        have hkv' := (sortById_perm _).mem_iff.mp (List.getElem_mem hj)
+        have hs : isStr (sortById (c.values.filter (fun kv => isStr kv.2)))[j].2 = true :=
+          (List.mem_filter.mp hkv').2
+        generalize (sortById (c.values.filter (fun kv => isStr kv.2)))[j].2 = x at hs ⊢
+        cases x <;> simp [isStr, strOf] at hs ⊢)
+      exact ⟨this.1, this.2.1, by rw [this.2.2]; exact Nat.le_refl _⟩
+    · exact ⟨[], hnone⟩
 
-/-- F: compressing a property column (any mix of values, whichever branch and codec `compress()`
-takes) and decompressing it restores every value: for every entity id the read after
-`compress(); decompress_all()` equals the read before. -/
-theorem c15b_propcol_compress_decompress (c : PCol) (hk : KeysNodup c.values) (hn : c.compressed = none)
+/-- `compress` keeps the invariant and every logical value -/
+theorem compress_inv (c : PCol) (pairs : HotMap) (inv : PInv c pairs)
     (hl : c.values.length < 4294967296) :
-    ∃ c', c.compress.decompressAll = .ok c' ∧ c'.compressed = none ∧ ∀ id, c'.get id = c.get id := by
+    ∃ pairs', PInv c.compress pairs' ∧ (∀ id, logical c.compress pairs' id = logical c pairs id) ∧
+      c.compress.values.length + pairs'.length ≤ c.values.length + pairs.length := by
+  have hsame : ∃ pairs', PInv c pairs' ∧ (∀ id, logical c pairs' id = logical c pairs id) ∧
+      c.values.length + pairs'.length ≤ c.values.length + pairs.length :=
+    ⟨pairs, inv, fun _ => rfl, Nat.le_refl _⟩
   unfold PCol.compress
   split
-  · exact ⟨c, decompressAll_of_none c hn, hn, fun _ => rfl⟩
+  · exact hsame
   · split
-    · exact ⟨c, decompressAll_of_none c hn, hn, fun _ => rfl⟩
-    · split
-      · exact compressAsInts_restore c hk hn hl
+    · exact hsame
+    · rename_i hne hcs
+      have hn : c.compressed = none := by
+        cases h : c.compressed with
+        | none => rfl
+        | some d => rw [h] at hcs; simp at hcs
+      have hp : pairs = [] := by have := inv.comp; rw [hn] at this; exact this
+      subst hp
+      have hlog : ∀ id, hmGet c.values id = logical c [] id := by
+        intro id; unfold logical; cases hmGet c.values id <;> rfl
+      split
+      · obtain ⟨p', h1, h2, h3⟩ := compressAsInts_inv c inv.keys hn hl
+        exact ⟨p', h1, fun id => by rw [h2 id, hlog id], by simpa using h3⟩
       · split
-        · exact compressAsStrs_restore c hk hn hl
+        · obtain ⟨p', h1, h2, h3⟩ := compressAsStrs_inv c inv.keys hn hl
+          exact ⟨p', h1, fun id => by rw [h2 id, hlog id], by simpa using h3⟩
         · split
-          · exact compressAsBools_restore c hk hn hl
-          · exact ⟨c, decompressAll_of_none c hn, hn, fun _ => rfl⟩
+          · obtain ⟨p', h1, h2, h3⟩ := compressAsBools_inv c inv.keys hn hl
+            exact ⟨p', h1, fun id => by rw [h2 id, hlog id], by simpa using h3⟩
+          · exact hsame
 
+/-- `decompress_all` keeps the invariant and every logical value, and leaves nothing compressed -/
+theorem decompress_inv (c : PCol) (pairs : HotMap) (inv : PInv c pairs) :
+    ∃ c', c.decompressAll = .ok c' ∧ c'.compressed = none ∧ c'.mode = c.mode ∧ PInv c' [] ∧
+      (∀ id, logical c' [] id = logical c pairs id) ∧ c'.values.length ≤ c.values.length + pairs.length := by
+  have hcomp := inv.comp
+  cases hc : c.compressed with
+  | none =>
+    rw [hc] at hcomp
+    simp only at hcomp
+    subst hcomp
+    exact ⟨c, decompressAll_of_none c hc, hc, rfl, inv, fun _ => rfl, by simp⟩
+  | some d =>
+    rw [hc] at hcomp
+    simp only at hcomp
+    obtain ⟨h1, h2⟩ := foldl_insert_props pairs c.values inv.keys
+    refine ⟨_, CCDok.decompress c d pairs hc hcomp, rfl, rfl,
+      ⟨h1, rfl, List.nodup_nil, by intro id h; cases h⟩, ?_, h2⟩
+    intro id
+    rw [logical_eq_foldl c pairs inv.pk inv.disj]
+    unfold logical
+    simp only
+    cases hmGet (pairs.foldl (fun m p => hmInsert m p.1 p.2) c.values) id <;> rfl
 
-/-! ### reads do not depend on the compression mode — as far as that is true -/
+/-! ### reads do not depend on the compression mode -/
 
 inductive ColOp where
   | set (id : Nat) (v : PV) | remove (id : Nat) | compress | setMode (m : CMode)
   deriving DecidableEq, Repr
 
 def PCol.step (c : PCol) : ColOp → Res PCol
-  | .set id v => .ok (c.set id v)
-  | .remove id => .ok (c.remove id)
+  | .set id v => c.set id v
+  | .remove id => c.remove id
   | .compress => .ok c.compress
   | .setMode m => c.setMode m
 
@@ -1601,159 +2265,251 @@ def plainStep (m : HotMap) : ColOp → HotMap
 
 def plainRun (m : HotMap) (ops : List ColOp) : HotMap := ops.foldl plainStep m
 
-/-- decidable: the column never holds compressed data while `ops` run -/
-def staysHot (c : PCol) : List ColOp → Bool
-  | [] => c.compressed.isNone
-  | o :: os => c.compressed.isNone && (match c.step o with
-    | .ok c' => staysHot c' os
-    | _ => false)
+theorem hmGet_remove (m : HotMap) (hk : KeysNodup m) (k id : Nat) :
+    hmGet (hmRemove m k) id = if k = id then none else hmGet m id := by
+  induction m with
+  | nil => simp [hmRemove, hmGet]
+  | cons kv r ih =>
+    obtain ⟨k', w⟩ := kv
+    unfold KeysNodup at hk
+    simp only [List.map_cons, List.nodup_cons] at hk
+    unfold hmRemove
+    by_cases h : k' = k
+    · subst h
+      rw [if_pos rfl]
+      by_cases h2 : k' = id
+      · subst h2
+        rw [if_pos rfl]
+        exact hmGet_none_of_not_key r k' hk.1
+      · rw [if_neg h2]; simp [hmGet, h2]
+    · rw [if_neg h]
+      by_cases h2 : k' = id
+      · subst h2
+        have : k ≠ k' := fun e => h e.symm
+        simp [hmGet, this]
+      · simp only [hmGet, if_neg h2]
+        exact ih hk.2
 
-theorem compressAsInts_none (c : PCol) (h : c.compressAsInts.compressed = none) : c.compressAsInts = c := by
-  unfold PCol.compressAsInts at h ⊢
-  simp only at h ⊢
-  split
-  · rfl
-  · rename_i h8
-    rw [if_neg h8] at h
+theorem hmRemove_length_le (m : HotMap) (k : Nat) : (hmRemove m k).length ≤ m.length := by
+  induction m with
+  | nil => simp [hmRemove]
+  | cons kv r ih =>
+    obtain ⟨k', w⟩ := kv
+    unfold hmRemove
     split
-    · rename_i hr; rw [if_pos hr] at h; cases h
-    · rfl
+    · simp
+    · simp only [List.length_cons]; omega
 
-theorem compressAsStrs_none (c : PCol) (h : c.compressAsStrs.compressed = none) : c.compressAsStrs = c := by
-  unfold PCol.compressAsStrs at h ⊢
-  simp only at h ⊢
+theorem thaw_of_none (c : PCol) (id : Nat) (h : c.compressedPos id = none) : c.thaw id = .ok c := by
+  unfold PCol.thaw; rw [h]; rfl
+
+theorem thaw_of_some (c : PCol) (id pos : Nat) (h : c.compressedPos id = some pos) :
+    c.thaw id = c.decompressAll := by
+  unfold PCol.thaw; rw [h]; rfl
+
+theorem thaw_inv (c : PCol) (pairs : HotMap) (inv : PInv c pairs) (id : Nat) :
+    ∃ c' pairs', c.thaw id = .ok c' ∧ c'.mode = c.mode ∧ PInv c' pairs' ∧
+      (∀ id', logical c' pairs' id' = logical c pairs id') ∧ id ∉ pairs'.map (·.1) ∧
+      c'.values.length + pairs'.length ≤ c.values.length + pairs.length := by
+  cases hp : c.compressedPos id with
+  | some pos =>
+    rw [thaw_of_some c id pos hp]
+    obtain ⟨c', h1, _, h3, h4, h5, h6⟩ := decompress_inv c pairs inv
+    exact ⟨c', [], h1, h3, h4, h5, by simp, by simpa using h6⟩
+  | none =>
+    rw [thaw_of_none c id hp]
+    refine ⟨c, pairs, rfl, rfl, inv, fun _ => rfl, ?_, Nat.le_refl _⟩
+    have hcomp := inv.comp
+    unfold PCol.compressedPos at hp
+    cases hc : c.compressed with
+    | none =>
+      rw [hc] at hcomp
+      simp only at hcomp
+      subst hcomp; simp
+    | some d =>
+      rw [hc] at hcomp hp
+      simp only at hcomp hp
+      rw [CCDok.ids_eq d pairs hcomp] at hp
+      exact (idxOf?_none_iff _ _).mp hp
+
+theorem setHot_inv (c : PCol) (pairs : HotMap) (inv : PInv c pairs) (id : Nat) (v : PV)
+    (hid : id ∉ pairs.map (·.1)) (hl : c.values.length + 1 < 4294967296) :
+    ∃ pairs', PInv (c.setHot id v) pairs' ∧
+      (∀ id', logical (c.setHot id v) pairs' id' = if id = id' then some v else logical c pairs id') ∧
+      (c.setHot id v).values.length + pairs'.length ≤ c.values.length + pairs.length + 1 := by
+  have hins := hmInsert_length_le c.values id v
+  have inv1 : PInv { c with values := hmInsert c.values id v } pairs := by
+    refine ⟨keysNodup_insert c.values inv.keys id v, inv.comp, inv.pk, ?_⟩
+    intro id' hid'
+    simp only
+    rw [hmGet_insert, if_neg (by intro h; subst h; exact hid hid')]
+    exact inv.disj id' hid'
+  have hlog1 : ∀ id', logical { c with values := hmInsert c.values id v } pairs id' =
+      if id = id' then some v else logical c pairs id' := by
+    intro id'
+    unfold logical
+    simp only
+    rw [hmGet_insert]
+    by_cases h : id = id'
+    · simp [h]
+    · simp [h]
+  unfold PCol.setHot
   split
-  · rfl
-  · rename_i h8
-    rw [if_neg h8] at h
-    split
-    · rename_i hr; rw [if_pos hr] at h; cases h
-    · rfl
+  · split
+    · obtain ⟨p', h1, h2, h3⟩ := compress_inv _ pairs inv1 (by simp only; omega)
+      refine ⟨p', h1, fun id' => by rw [h2 id', hlog1 id'], ?_⟩
+      simp only at h3; omega
+    · exact ⟨pairs, inv1, hlog1, by simp only; omega⟩
+  · exact ⟨pairs, inv1, hlog1, by simp only; omega⟩
 
-theorem compressAsBools_none (c : PCol) (h : c.compressAsBools.compressed = none) : c.compressAsBools = c := by
-  unfold PCol.compressAsBools at h ⊢
-  simp only at h ⊢
-  split
-  · rfl
-  · rename_i h8
-    rw [if_neg h8] at h; cases h
-
-theorem compress_none (c : PCol) (h : c.compress.compressed = none) : c.compress = c := by
-  unfold PCol.compress at h ⊢
-  split
-  · rfl
-  · rename_i h1
-    rw [if_neg h1] at h
-    split
-    · rfl
-    · rename_i h2
-      rw [if_neg h2] at h
-      split
-      · rename_i h3; rw [if_pos h3] at h; exact compressAsInts_none c h
-      · rename_i h3
-        rw [if_neg h3] at h
-        split
-        · rename_i h4; rw [if_pos h4] at h; exact compressAsStrs_none c h
-        · rename_i h4
-          rw [if_neg h4] at h
-          split
-          · rename_i h5; rw [if_pos h5] at h; exact compressAsBools_none c h
-          · rfl
-
-/-- one step that leaves the column uncompressed acts on the hot map like the plain map -/
-theorem step_hot (c : PCol) (o : ColOp) (hn : c.compressed = none) (c' : PCol)
-    (hs : c.step o = .ok c') (hn' : c'.compressed = none) : c'.values = plainStep c.values o := by
+/-- one operation acts on the logical content like the plain map -/
+theorem step_inv (c : PCol) (pairs : HotMap) (inv : PInv c pairs) (o : ColOp)
+    (hl : c.values.length + pairs.length + 1 < 4294967296) :
+    ∃ c' pairs', c.step o = .ok c' ∧ PInv c' pairs' ∧
+      c'.values.length + pairs'.length ≤ c.values.length + pairs.length + 1 ∧
+      ∀ (m0 : HotMap), KeysNodup m0 → (∀ id, logical c pairs id = hmGet m0 id) →
+        ∀ id, logical c' pairs' id = hmGet (plainStep m0 o) id := by
   cases o with
   | set id v =>
-    simp only [PCol.step, Res.ok.injEq] at hs
-    subst hs
-    unfold PCol.set at hn' ⊢
-    simp only at hn' ⊢
+    obtain ⟨c0, p0, t1, _, t3, t4, t5, t6⟩ := thaw_inv c pairs inv id
+    obtain ⟨p1, s1, s2, s3⟩ := setHot_inv c0 p0 t3 id v t5 (by omega)
+    refine ⟨c0.setHot id v, p1, by simp only [PCol.step, PCol.set, t1], s1, by omega, ?_⟩
+    intro m0 _ hlog id'
+    rw [s2 id']
+    simp only [plainStep, hmGet_insert]
     split
-    · rename_i hm
-      rw [if_pos hm] at hn'
-      split
-      · rename_i ht
-        rw [if_pos ht] at hn'
-        rw [compress_none _ hn']; rfl
-      · rfl
     · rfl
+    · rw [t4 id', hlog id']
   | remove id =>
-    simp only [PCol.step, Res.ok.injEq] at hs
-    subst hs; rfl
+    obtain ⟨c0, p0, t1, _, t3, t4, t5, t6⟩ := thaw_inv c pairs inv id
+    have hrl := hmRemove_length_le c0.values id
+    refine ⟨{ c0 with values := hmRemove c0.values id }, p0,
+      by simp only [PCol.step, PCol.remove, t1], ?_, by simp only; omega, ?_⟩
+    · refine ⟨keysNodup_remove c0.values t3.keys id, t3.comp, t3.pk, ?_⟩
+      intro id' hid'
+      simp only
+      rw [hmGet_remove c0.values t3.keys]
+      split
+      · rfl
+      · exact t3.disj id' hid'
+    · intro m0 hk0 hlog id'
+      simp only [plainStep]
+      rw [hmGet_remove m0 hk0]
+      unfold logical
+      simp only
+      rw [hmGet_remove c0.values t3.keys]
+      by_cases h : id = id'
+      · subst h
+        rw [if_pos rfl, if_pos rfl]
+        simp only
+        have : p0.find? (fun p => p.1 == id) = none := by
+          rw [List.find?_eq_none]
+          intro p hp hpe
+          have : p.1 = id := by simpa using hpe
+          exact t5 (by rw [← this]; exact List.mem_map.mpr ⟨p, hp, rfl⟩)
+        rw [this]; rfl
+      · rw [if_neg h, if_neg h, ← hlog id', ← t4 id']
+        rfl
   | compress =>
-    simp only [PCol.step, Res.ok.injEq] at hs
-    subst hs
-    rw [compress_none _ hn']; rfl
+    obtain ⟨p', h1, h2, h3⟩ := compress_inv c pairs inv (by omega)
+    refine ⟨c.compress, p', rfl, h1, by omega, ?_⟩
+    intro m0 _ hlog id
+    rw [h2 id, hlog id]; rfl
   | setMode m =>
-    simp only [PCol.step, PCol.setMode] at hs
-    split at hs
-    · rw [if_neg (by simp [hn])] at hs
-      cases hs; rfl
-    · cases hs; rfl
+    simp only [PCol.step, PCol.setMode]
+    have invm : PInv { c with mode := m } pairs := ⟨inv.keys, inv.comp, inv.pk, inv.disj⟩
+    have hlogm : ∀ id, logical { c with mode := m } pairs id = logical c pairs id := fun _ => rfl
+    split
+    · split
+      · obtain ⟨c', d1, _, _, d4, d5, d6⟩ := decompress_inv _ pairs invm
+        refine ⟨c', [], d1, d4, by simp only at d6 ⊢; simp; omega, ?_⟩
+        intro m0 _ hlog id
+        rw [d5 id, hlogm id, hlog id]; rfl
+      · exact ⟨_, pairs, rfl, invm, by simp only; omega, fun m0 _ hlog id => by rw [hlogm id, hlog id]; rfl⟩
+    · exact ⟨_, pairs, rfl, invm, by simp only; omega, fun m0 _ hlog id => by rw [hlogm id, hlog id]; rfl⟩
 
-/-- P: as long as the column never actually holds compressed data (decidable: `staysHot`) — mode
-`None`, or `Auto` below the 4096-value hot buffer, or compression attempts that are not worth it —
-every operation sequence leaves exactly the map that the same sequence builds with compression
-off; so every read agrees. -/
-theorem c15b_propcol_mode_independent_partial (c : PCol) (ops : List ColOp) (h : staysHot c ops = true) :
-    ∃ c', c.run ops = .ok c' ∧ c'.values = plainRun c.values ops ∧
-      ∀ id, c'.get id = hmGet (plainRun c.values ops) id := by
-  induction ops generalizing c with
-  | nil => exact ⟨c, rfl, rfl, fun _ => rfl⟩
+theorem plainStep_keys (m : HotMap) (hk : KeysNodup m) (o : ColOp) : KeysNodup (plainStep m o) := by
+  cases o with
+  | set id v => exact keysNodup_insert m hk id v
+  | remove id => exact keysNodup_remove m hk id
+  | compress => exact hk
+  | setMode _ => exact hk
+
+theorem run_inv (ops : List ColOp) (c : PCol) (pairs : HotMap) (inv : PInv c pairs) (m0 : HotMap)
+    (hk0 : KeysNodup m0) (hlog : ∀ id, logical c pairs id = hmGet m0 id)
+    (hb : c.values.length + pairs.length + ops.length < 4294967296) :
+    ∃ c' pairs', c.run ops = .ok c' ∧ PInv c' pairs' ∧
+      ∀ id, logical c' pairs' id = hmGet (plainRun m0 ops) id := by
+  induction ops generalizing c pairs m0 with
+  | nil => exact ⟨c, pairs, rfl, inv, hlog⟩
   | cons o os ih =>
-    unfold staysHot at h
-    simp only [Bool.and_eq_true, Option.isNone_iff_eq_none] at h
-    obtain ⟨hn, h2⟩ := h
-    cases hs : c.step o with
-    | ok c1 =>
-      rw [hs] at h2
-      simp only at h2
-      obtain ⟨c', hr, hv, hg⟩ := ih c1 h2
-      have hn1 : c1.compressed = none := by
-        cases os with
-        | nil => simpa [staysHot] using h2
-        | cons o2 os2 =>
-          unfold staysHot at h2
-          simp only [Bool.and_eq_true, Option.isNone_iff_eq_none] at h2
-          exact h2.1
-      have e := step_hot c o hn c1 hs hn1
-      refine ⟨c', ?_, ?_, ?_⟩
-      · unfold PCol.run; rw [hs]; exact hr
-      · rw [hv, e]; rfl
-      · intro id; rw [hg id, e]; rfl
-    | err => rw [hs] at h2; cases h2
-    | panic => rw [hs] at h2; cases h2
+    simp only [List.length_cons] at hb
+    obtain ⟨c1, p1, s1, s2, s3, s4⟩ := step_inv c pairs inv o (by omega)
+    obtain ⟨c', p', r1, r2, r3⟩ := ih c1 p1 s2 (plainStep m0 o) (plainStep_keys m0 hk0 o)
+      (s4 m0 hk0 hlog) (by omega)
+    refine ⟨c', p', ?_, r2, r3⟩
+    unfold PCol.run
+    rw [s1]; exact r1
+
+/-- F: a read never depends on the compression mode, on whether or when compression happened, or on
+writes made after it: for every sequence of `set`, `remove`, `compress`, `set_compression_mode`
+(fewer than 2^32 operations) started in any mode, every `get` returns what the same sequence
+returns on a plain map. -/
+theorem c15b_propcol_mode_independent (m : CMode) (ops : List ColOp) (hb : ops.length < 4294967296) :
+    ∃ c', PCol.run { mode := m } ops = .ok c' ∧ ∀ id, c'.get id = .ok (hmGet (plainRun [] ops) id) := by
+  have inv0 : PInv ({ mode := m } : PCol) [] :=
+    ⟨List.nodup_nil, rfl, List.nodup_nil, by intro id h; cases h⟩
+  obtain ⟨c', p', r1, r2, r3⟩ := run_inv ops { mode := m } [] inv0 [] List.nodup_nil
+    (fun id => rfl) (by simpa using hb)
+  refine ⟨c', r1, fun id => ?_⟩
+  rw [get_logical c' p' r2 id, r3 id]
+
+/-- F: compressing a column and decompressing it restores every value, and while it is compressed
+every value stays readable. -/
+theorem c15b_propcol_compress_decompress (c : PCol) (hk : KeysNodup c.values) (hn : c.compressed = none)
+    (hl : c.values.length < 4294967296) :
+    (∀ id, c.compress.get id = .ok (hmGet c.values id)) ∧
+    ∃ c', c.compress.decompressAll = .ok c' ∧ c'.compressed = none ∧
+      ∀ id, hmGet c'.values id = hmGet c.values id := by
+  have inv0 : PInv c [] := ⟨hk, by rw [hn], List.nodup_nil, by intro id h; cases h⟩
+  have hlog0 : ∀ id, logical c [] id = hmGet c.values id := by
+    intro id; unfold logical; cases hmGet c.values id <;> rfl
+  obtain ⟨p', h1, h2, _⟩ := compress_inv c [] inv0 hl
+  refine ⟨fun id => by rw [get_logical _ p' h1 id, h2 id, hlog0 id], ?_⟩
+  obtain ⟨c', d1, d2, _, _, d5, _⟩ := decompress_inv _ p' h1
+  refine ⟨c', d1, d2, fun id => ?_⟩
+  have := d5 id
+  rw [h2 id, hlog0 id] at this
+  rw [← this]
+  unfold logical; cases hmGet c'.values id <;> rfl
 
 def intCol (n : Nat) : List ColOp := (List.range n).map (fun i => ColOp.set i (.int (BitVec.ofNat 64 (1000 + i))))
 
-/-- N: the hypothesis holds for a run that does request compression (seven integers are not
-worth compressing) and for an Auto-mode column below its buffer size. -/
-theorem c15b_propcol_nonvacuity : staysHot {} (intCol 7 ++ [.compress, .set 3 (.int 7), .setMode .none]) = true ∧
-    staysHot { mode := .auto } (intCol 20) = true := by decide
-
-/-- W: the unrestricted statement — a read never depends on whether compression happened — is false.
-Eight integers, `force_compress()`: every value becomes unreadable (`get` only looks into the
-hot buffer), although the same operations without compression read `1000`. -/
-theorem c15b_propcol_unreadable_witness :
+/-- N: the statement is about runs that really compress: eight integers are compressed and stay
+readable, and a later write wins over the compressed copy. -/
+theorem c15b_propcol_nonvacuity :
     (match PCol.run {} (intCol 8 ++ [.compress]) with
-      | .ok c => c.get 0
-      | _ => none) = none ∧
-    hmGet (plainRun [] (intCol 8 ++ [.compress])) 0 = some (.int 1000) ∧
-    staysHot {} (intCol 8 ++ [.compress]) = false := by decide
-
-/-- W: writes after compression are lost or resurrected by `decompress_all`: a value set after
-compression is overwritten by the stale compressed one, a removed value comes back. -/
-theorem c15b_propcol_stale_witness :
+      | .ok c => (c.compressed.isSome, c.get 0)
+      | _ => (false, .err)) = (true, .ok (some (.int 1000))) ∧
     (match PCol.run {} (intCol 8 ++ [.compress, .set 3 (.int 7), .setMode .none]) with
       | .ok c => c.get 3
-      | _ => none) = some (.int 1003) ∧
-    hmGet (plainRun [] (intCol 8 ++ [.compress, .set 3 (.int 7), .setMode .none])) 3 = some (.int 7) ∧
-    (match PCol.run {} (intCol 8 ++ [.compress, .remove 3, .setMode .none]) with
-      | .ok c => c.get 3
-      | _ => none) = some (.int 1003) ∧
-    hmGet (plainRun [] (intCol 8 ++ [.compress, .remove 3, .setMode .none])) 3 = none := by decide
+      | _ => .err) = .ok (some (.int 7)) := by decide
 
+/-- eight integers set through the old code -/
+def oldCol8 : PCol :=
+  (List.range 8).foldl (fun c i => Old.PCol.set c i (.int (BitVec.ofNat 64 (1000 + i)))) {}
+
+/-- W (regression): before the repair `get` looked at the hot buffer only — eight integers and
+`force_compress()` made every value unreadable — and `set`/`remove` left the compressed copy in
+place, so decompression brought the old value back. -/
+theorem c15b_propcol_unreadable_witness :
+    Old.PCol.get oldCol8.compress 0 = none ∧
+    (match (Old.PCol.set oldCol8.compress 3 (.int 7)).decompressAll with
+      | .ok c => Old.PCol.get c 3
+      | _ => none) = some (.int 1003) ∧
+    (match (Old.PCol.remove oldCol8.compress 3).decompressAll with
+      | .ok c => Old.PCol.get c 3
+      | _ => none) = some (.int 1003) := by decide
 
 /-! ### compressed adjacency chunks -/
 
@@ -1813,52 +2569,40 @@ theorem zip_map_fst_snd {α β : Type} (l : List (α × β)) : List.zip (l.map (
   | nil => rfl
   | cons x xs ih => simp [ih]
 
-/-- does the chunk consist of exactly one edge, to node id 0? -/
-def zeroSingleton (es : List Entry) : Bool :=
-  match es with
-  | [(0, _)] => true
-  | _ => false
-
 theorem sortByDst_perm (es : List Entry) : (sortByDst es).Perm es := sortBy_perm _ es
 
-theorem zeroSingleton_sort (es : List Entry) (h : zeroSingleton es = false) :
-    (sortByDst es).map (·.1) ≠ [0] := by
-  intro h0
-  have hl : (sortByDst es).length = 1 := by
-    have := congrArg List.length h0; simpa using this
-  have hl2 : es.length = 1 := by rw [← (sortByDst_perm es).length_eq]; exact hl
-  match es, hl2 with
-  | [(d, e)], _ =>
-    have : sortByDst [(d, e)] = [(d, e)] := rfl
-    rw [this] at h0
-    simp at h0
-    subst h0
-    simp [zeroSingleton] at h
-
-/-- P: a compressed adjacency chunk decodes to the chunk's entries, stably sorted by destination —
-a permutation of what was stored — unless the chunk is a single edge to node 0. -/
-theorem c15b_adj_chunk_roundtrip_partial (c : AChunk) (hb : ∀ e ∈ c.entries, e.1 < W ∧ e.2 < W)
-    (hz : zeroSingleton c.entries = false) :
+/-- F: a compressed adjacency chunk decodes to the chunk's entries, stably sorted by destination —
+a permutation of what was stored (also for a single edge to node 0, which used to disappear). -/
+theorem c15b_adj_chunk_roundtrip (c : AChunk) (hb : ∀ e ∈ c.entries, e.1 < W ∧ e.2 < W) :
     c.compress.iter = .ok (sortByDst c.entries) ∧ (sortByDst c.entries).Perm c.entries := by
   refine ⟨?_, sortByDst_perm _⟩
   have hmem : ∀ e ∈ sortByDst c.entries, e.1 < W ∧ e.2 < W := fun e he =>
     hb e ((sortByDst_perm c.entries).mem_iff.mp he)
   unfold AChunk.compress CChunk.iter
   simp only
-  rw [c15_delta_bitpacked_roundtrip_partial ((sortByDst c.entries).map (·.1)) (sortBy_sorted _ _)
-    (by intro v hv; obtain ⟨e, he, rfl⟩ := List.mem_map.mp hv; exact (hmem e he).1)
-    (zeroSingleton_sort _ hz)]
+  rw [(c15_delta_bitpacked_roundtrip ((sortByDst c.entries).map (·.1)) (sortBy_sorted _ _)
+    (by intro v hv; obtain ⟨e, he, rfl⟩ := List.mem_map.mp hv; exact (hmem e he).1)).1]
   simp only
   rw [c15_unpack_pack _ (by intro v hv; obtain ⟨e, he, rfl⟩ := List.mem_map.mp hv; exact (hmem e he).2)]
   simp only
   rw [zip_map_fst_snd]
 
-/-- W: the excluded chunk. A chunk holding the single edge `(dst 0, edge 7)` decodes to nothing:
-the edge is lost (through the `DeltaBitPacked` emptiness test `deltas.is_empty() && base == 0`). -/
+/-- `CompressedAdjacencyChunk::iter` over the old `DeltaBitPacked::decode` -/
+def Old.chunkIter (c : CChunk) : Res (List Entry) :=
+  match Old.DBP.decode c.dsts with
+  | .ok ds => (match c.edges.unpack with
+    | .ok es => .ok (List.zip ds es)
+    | .err => .err
+    | .panic => .panic)
+  | .err => .err
+  | .panic => .panic
+
+/-- W (regression): a chunk holding the single edge `(dst 0, edge 7)` used to decode to nothing —
+the edge was lost through the `DeltaBitPacked` emptiness test; now it is kept. -/
 theorem c15b_adj_chunk_zero_singleton_witness :
-    (AChunk.mk [(0, 7)] 64).compress.iter = .ok [] ∧
-    ((({} : AList).addEdge (0, 7)).compact 64).freezeAll.iter = .ok [] ∧
-    ((({} : AList).addEdge (0, 7)).compact 64).iter = .ok [(0, 7)] := by decide
+    Old.chunkIter ⟨Old.DBP.encode [0], pack [7], 1⟩ = .ok [] ∧
+    (AChunk.mk [(0, 7)] 64).compress.iter = .ok [(0, 7)] ∧
+    ((({} : AList).addEdge (0, 7)).compact 64).freezeAll.iter = .ok [(0, 7)] := by decide
 
 /-- N -/
 theorem c15b_adj_chunk_nonvacuity : (AChunk.mk [(3, 1), (1, 2), (3, 0), (0, 9)] 64).compress.iter = .ok [(0, 9), (1, 2), (3, 1), (3, 0)] := by
@@ -1885,25 +2629,21 @@ theorem coldEntries_append (a b : List CChunk) (ea eb : List Entry)
     | panic => rw [hc] at ha; cases ha
 
 theorem coldEntries_compress (hot : List AChunk)
-    (hb : ∀ c ∈ hot, ∀ e ∈ c.entries, e.1 < W ∧ e.2 < W)
-    (hz : ∀ c ∈ hot, zeroSingleton c.entries = false) :
+    (hb : ∀ c ∈ hot, ∀ e ∈ c.entries, e.1 < W ∧ e.2 < W) :
     ∃ es, coldEntries (hot.map AChunk.compress) = .ok es ∧ es.Perm (hot.map (·.entries)).flatten := by
   induction hot with
   | nil => exact ⟨[], rfl, List.Perm.refl _⟩
   | cons c cs ih =>
     obtain ⟨es, h1, h2⟩ := ih (fun c' hc' => hb c' (List.mem_cons_of_mem _ hc'))
-      (fun c' hc' => hz c' (List.mem_cons_of_mem _ hc'))
-    obtain ⟨g1, g2⟩ := c15b_adj_chunk_roundtrip_partial c (hb c (by simp)) (hz c (by simp))
+    obtain ⟨g1, g2⟩ := c15b_adj_chunk_roundtrip c (hb c (by simp))
     refine ⟨sortByDst c.entries ++ es, ?_, ?_⟩
     · simp only [List.map_cons, coldEntries, g1, h1]
     · simp only [List.map_cons, List.flatten_cons]
       exact List.Perm.append g2 h2
 
-/-- P: `freeze_all` (compress every hot chunk) keeps the edge list of a node up to order, provided
-no hot chunk is a single edge to node 0. -/
-theorem c15b_adj_freeze_partial (l : AList) (es : List Entry) (h : l.iter = .ok es)
-    (hb : ∀ c ∈ l.hot, ∀ e ∈ c.entries, e.1 < W ∧ e.2 < W)
-    (hz : ∀ c ∈ l.hot, zeroSingleton c.entries = false) :
+/-- F: `freeze_all` (compress every hot chunk) keeps the edge list of a node up to order. -/
+theorem c15b_adj_freeze (l : AList) (es : List Entry) (h : l.iter = .ok es)
+    (hb : ∀ c ∈ l.hot, ∀ e ∈ c.entries, e.1 < W ∧ e.2 < W) :
     ∃ es', l.freezeAll.iter = .ok es' ∧ es'.Perm es := by
   unfold AList.iter at h
   cases hc : coldEntries l.cold with
@@ -1911,7 +2651,7 @@ theorem c15b_adj_freeze_partial (l : AList) (es : List Entry) (h : l.iter = .ok 
     rw [hc] at h
     simp only [Res.ok.injEq] at h
     obtain ⟨ne, h1, h2⟩ := coldEntries_compress (l.hot.filter (fun c => c.entries.length > 0))
-      (fun c hc' => hb c (List.mem_filter.mp hc').1) (fun c hc' => hz c (List.mem_filter.mp hc').1)
+      (fun c hc' => hb c (List.mem_filter.mp hc').1)
     unfold AList.freezeAll AList.iter
     simp only
     rw [coldEntries_append _ _ ce ne hc h1]
@@ -1922,7 +2662,7 @@ theorem c15b_adj_freeze_partial (l : AList) (es : List Entry) (h : l.iter = .ok 
     -- dropping empty chunks does not change the concatenation
     have hflat : ((l.hot.filter (fun c => c.entries.length > 0)).map (·.entries)).flatten =
         (l.hot.map (·.entries)).flatten := by
-      clear h hb hz h1 h2 hc
+      clear h hb h1 h2 hc
       induction l.hot with
       | nil => rfl
       | cons c cs ih =>
@@ -2007,12 +2747,161 @@ theorem pushSamples_spec (f : Nat) (s : List Nat) (next bp : Nat) (hf : next ≤
       · simp at h2; omega
     · exact ⟨0, by simp, by omega, by omega⟩
 
+/-- ones from the start of a block's superblock to the block's start -/
+def relRank (data : List Nat) (len b : Nat) : Nat := cum data len b - cum data len (8 * (b / 8))
+
+theorem cum_diff_le (data : List Nat) (len a b : Nat) (h : a ≤ b) :
+    cum data len b ≤ cum data len a + 64 * (b - a) := by
+  unfold cum
+  have e : min (64 * b) len = min (64 * a) len + (min (64 * b) len - min (64 * a) len) := by omega
+  rw [e, onesBelow_add]
+  have := List.countP_le_length (p := fun j => bitmapNull data (min (64 * a) len + j))
+    (l := List.range (min (64 * b) len - min (64 * a) len))
+  simp only [List.length_range] at this
+  omega
+
+/-- the relative rank fits the nine bits it is stored in -/
+theorem relRank_lt (data : List Nat) (len b : Nat) : relRank data len b < 512 := by
+  unfold relRank
+  have := cum_diff_le data len (8 * (b / 8)) b (by omega)
+  omega
+
+/-- the packed block-rank words after `k` blocks -/
+def BrInv (data : List Nat) (len : Nat) (br : List Nat) (k : Nat) : Prop :=
+  br.length = (k + 7) / 8 ∧
+  ∀ j w, br[j]? = some w → ∀ t, w.testBit t =
+    (decide (8 * j + t / 9 + 1 < k) && decide (t / 9 < 7) &&
+      (relRank data len (8 * j + t / 9 + 1)).testBit (t % 9))
+
+theorem BrInv.init (data : List Nat) (len : Nat) : BrInv data len [] 0 :=
+  ⟨rfl, by intro j w h; simp at h⟩
+
+theorem BrInv.step (data : List Nat) (len : Nat) (br : List Nat) (k : Nat) (h : BrInv data len br k) :
+    BrInv data len (packRank (if k % 8 = 0 then br ++ [0] else br) (k % 8) (relRank data len k)) (k + 1) := by
+  obtain ⟨hlen, hbits⟩ := h
+  by_cases h8 : k % 8 = 0
+  · -- a new superblock: a fresh zero word
+    rw [if_pos h8]
+    unfold packRank
+    rw [if_neg (by omega)]
+    refine ⟨by simp [hlen]; omega, ?_⟩
+    intro j w hj t
+    by_cases hjl : j < br.length
+    · rw [List.getElem?_append_left hjl] at hj
+      rw [hbits j w hj t]
+      by_cases h7 : t / 9 < 7
+      · have a1 : 8 * j + t / 9 + 1 < k := by omega
+        have a2 : 8 * j + t / 9 + 1 < k + 1 := by omega
+        simp [a1, a2, h7]
+      · simp [h7]
+    · rw [List.getElem?_append_right (by omega)] at hj
+      have : j - br.length = 0 := by
+        apply Classical.byContradiction; intro hn
+        have : j - br.length = (j - br.length - 1) + 1 := by omega
+        rw [this] at hj; simp at hj
+      rw [this] at hj
+      simp at hj
+      subst hj
+      have : ¬ 8 * j + t / 9 + 1 < k + 1 := by omega
+      simp [this]
+  · rw [if_neg h8]
+    unfold packRank
+    rw [if_pos (by omega)]
+    refine ⟨by simp [hlen]; omega, ?_⟩
+    intro j w hj t
+    rw [List.getElem?_modify] at hj
+    cases hw : br[j]? with
+    | none => rw [hw] at hj; simp at hj
+    | some w0 =>
+      rw [hw] at hj
+      simp only [Option.map_eq_map, Option.map_some, Option.some.injEq] at hj
+      have hjl : j < br.length := by
+        apply Classical.byContradiction; intro hn
+        rw [List.getElem?_eq_none (by omega)] at hw; cases hw
+      have hold := hbits j w0 hw t
+      by_cases hlast : br.length - 1 = j
+      · rw [if_pos hlast] at hj
+        subst hj
+        have hj8 : j = k / 8 := by omega
+        have hrel := relRank_lt data len k
+        have hsh : relRank data len k <<< (9 * (k % 8 - 1)) < W := by
+          rw [Nat.shiftLeft_eq, W_eq2]
+          calc relRank data len k * 2 ^ (9 * (k % 8 - 1)) < 2 ^ 9 * 2 ^ (9 * (k % 8 - 1)) :=
+                Nat.mul_lt_mul_of_lt_of_le hrel (Nat.le_refl _) (Nat.two_pow_pos _)
+            _ = 2 ^ (9 + 9 * (k % 8 - 1)) := (Nat.pow_add 2 9 _).symm
+            _ ≤ 2 ^ 64 := Nat.pow_le_pow_right (by decide) (by omega)
+        rw [Nat.mod_eq_of_lt hsh, Nat.testBit_or, hold, Nat.testBit_shiftLeft]
+        by_cases hslot : t / 9 = k % 8 - 1
+        · -- the field written now
+          have a1 : ¬ 8 * j + t / 9 + 1 < k := by omega
+          have a2 : 8 * j + t / 9 + 1 < k + 1 := by omega
+          have a3 : t / 9 < 7 := by omega
+          have a4 : t ≥ 9 * (k % 8 - 1) := by omega
+          have a5 : t - 9 * (k % 8 - 1) = t % 9 := by omega
+          have a6 : 8 * j + t / 9 + 1 = k := by omega
+          simp [a1, a2, a3, a4, a5, a6]
+        · have hz : (decide (t ≥ 9 * (k % 8 - 1)) && (relRank data len k).testBit (t - 9 * (k % 8 - 1))) = false := by
+            by_cases hge : t ≥ 9 * (k % 8 - 1)
+            · have : (relRank data len k).testBit (t - 9 * (k % 8 - 1)) = false := by
+                apply Nat.testBit_lt_two_pow
+                exact Nat.lt_of_lt_of_le hrel (by
+                  have : (512 : Nat) = 2 ^ 9 := by decide
+                  rw [this]; exact Nat.pow_le_pow_right (by decide) (by omega))
+              simp [this]
+            · simp [hge]
+          rw [hz, Bool.or_false]
+          by_cases h7 : t / 9 < 7
+          · have : (8 * j + t / 9 + 1 < k) ↔ (8 * j + t / 9 + 1 < k + 1) := by omega
+            simp [this]
+          · simp [h7]
+      · rw [if_neg hlast] at hj
+        subst hj
+        rw [hold]
+        by_cases h7 : t / 9 < 7
+        · have a1 : 8 * j + t / 9 + 1 < k := by omega
+          have a2 : 8 * j + t / 9 + 1 < k + 1 := by omega
+          simp [a1, a2, h7]
+        · simp [h7]
+
+/-- `block_rank(b)` is exactly the relative rank of block `b` -/
+theorem BrInv.blockRank_eq (data : List Nat) (len : Nat) (br : List Nat) (k : Nat) (h : BrInv data len br k)
+    (b : Nat) (hb : b < k) : Grafeo.Codec2.blockRank br b = relRank data len b := by
+  obtain ⟨hlen, hbits⟩ := h
+  unfold Grafeo.Codec2.blockRank
+  by_cases h8 : b % 8 = 0
+  · rw [if_pos h8]
+    unfold relRank
+    have : 8 * (b / 8) = b := by omega
+    rw [this]; omega
+  · rw [if_neg h8]
+    have hjl : b / 8 < br.length := by omega
+    rw [List.getElem?_eq_getElem hjl]
+    simp only
+    apply Nat.eq_of_testBit_eq
+    intro t
+    have h511 : (511 : Nat) = 2 ^ 9 - 1 := by decide
+    rw [Nat.testBit_and, Nat.testBit_shiftRight, h511, Nat.testBit_two_pow_sub_one,
+      hbits (b / 8) _ (List.getElem?_eq_getElem hjl)]
+    by_cases ht : t < 9
+    · have a1 : (9 * (b % 8 - 1) + t) / 9 = b % 8 - 1 := by omega
+      have a2 : (9 * (b % 8 - 1) + t) % 9 = t := by omega
+      have a3 : 8 * (b / 8) + (b % 8 - 1) + 1 = b := by omega
+      have a4 : b % 8 - 1 < 7 := by omega
+      rw [a1, a2, a3]
+      simp [hb, a4, ht]
+    · have : (relRank data len b).testBit t = false := by
+        apply Nat.testBit_lt_two_pow
+        exact Nat.lt_of_lt_of_le (relRank_lt data len b) (by
+          have : (512 : Nat) = 2 ^ 9 := by decide
+          rw [this]; exact Nat.pow_le_pow_right (by decide) (by omega))
+      simp [ht, this]
+
 /-- closed form of the loop state after `k` words -/
 structure SbvInv (data : List Nat) (len : Nat) (st : SbvSt) (k : Nat) : Prop where
   ones : st.ones = cum data len k
   zeros : st.zeros = min (64 * k) len - cum data len k
   sb : st.sb = (List.range ((k + 7) / 8)).map (fun j => cum data len (8 * j))
-  br : st.br = (List.range k).map (fun b => (cum data len b - cum data len (8 * (b / 8))) % 256)
+  br : BrInv data len st.br k
   sbStart : k > 0 → st.sbStart = cum data len (8 * ((k - 1) / 8))
   s1len : st.ones ≤ st.s1.length * 4096
   s1 : ∀ j x, st.s1[j]? = some x → ∃ b, b < k ∧ x = (64 * b) % 4294967296 ∧ cum data len b ≤ 4096 * j
@@ -2029,7 +2918,7 @@ theorem SbvInv.init (data : List Nat) (len : Nat) : SbvInv data len {} 0 where
   ones := by simp [cum_zero]
   zeros := by simp
   sb := by simp
-  br := by simp
+  br := BrInv.init data len
   sbStart := by intro h; omega
   s1len := by simp
   s1 := by intro j x h; simp at h
@@ -2068,8 +2957,8 @@ theorem SbvInv.step (data : List Nat) (len : Nat) (st : SbvSt) (k w : Nat)
       have e : (k + 1 + 7) / 8 = (k + 7) / 8 := by omega
       rw [e]
   · simp only [sbvStep]
-    rw [hbr, List.range_succ, List.map_append, hstart', hones]
-    rfl
+    rw [hstart', hones]
+    exact BrInv.step data len st.br k hbr
   · intro _
     simp only [sbvStep, Nat.add_sub_cancel]
     exact hstart'
@@ -2124,17 +3013,11 @@ theorem sbv_inv (v : BVec) : SbvInv v.data v.len (sbvLoop v.len {} 0 v.data) v.d
 
 set_option maxRecDepth 40000
 
-/-- decidable hypothesis of the rank/select theorems: no block starts with 256 or more ones counted
-from the start of its superblock, i.e. the `relative_rank as u8` casts of `from_bitvec` are exact -/
-def NoTrunc (v : BVec) : Prop :=
-  ∀ b, b < v.data.length → cum v.data v.len b - cum v.data v.len (8 * (b / 8)) < 256
-
-instance (v : BVec) : Decidable (NoTrunc v) := by unfold NoTrunc; exact Nat.decidableBallLT _ _
-
 theorem ofBVec_inner (v : BVec) : (SBV.ofBVec v).inner = v := rfl
-theorem ofBVec_br (v : BVec) : (SBV.ofBVec v).blockRanks =
-    (List.range v.data.length).map (fun b => (cum v.data v.len b - cum v.data v.len (8 * (b / 8))) % 256) :=
-  (sbv_inv v).br
+/-- the stored block ranks are exact: nine bits hold every value up to 448 -/
+theorem ofBVec_blockRank (v : BVec) (b : Nat) (hb : b < v.data.length) :
+    blockRank (SBV.ofBVec v).blockRanks b = cum v.data v.len b - cum v.data v.len (8 * (b / 8)) :=
+  BrInv.blockRank_eq v.data v.len _ _ (sbv_inv v).br b hb
 theorem ofBVec_ones (v : BVec) : (SBV.ofBVec v).onesCount = cum v.data v.len v.data.length := (sbv_inv v).ones
 
 theorem ofBVec_sb (v : BVec) (j : Nat) (hj : j < (v.data.length + 7) / 8) :
@@ -2161,7 +3044,7 @@ theorem onesBelow_le (data : List Nat) (n : Nat) : onesBelow data n ≤ n := by
   simpa using this
 
 /-- `rank1` of the index built over a well-formed vector, when no block rank was truncated -/
-theorem rank1_correct (v : BVec) (hw : v.WF) (hn : NoTrunc v) (pos : Nat) :
+theorem rank1_correct (v : BVec) (hw : v.WF) (pos : Nat) :
     (SBV.ofBVec v).rank1 pos = .ok (onesBelow v.data (min pos v.len)) := by
   unfold SBV.rank1
   rw [ofBVec_inner]
@@ -2181,13 +3064,7 @@ theorem rank1_correct (v : BVec) (hw : v.WF) (hn : NoTrunc v) (pos : Nat) :
       have hb : b < v.data.length := by omega
       rw [ofBVec_sb v (b / 8) (by omega)]
       simp only
-      rw [ofBVec_br]
-      have hbr : ((List.range v.data.length).map (fun b =>
-          (cum v.data v.len b - cum v.data v.len (8 * (b / 8))) % 256)).getD b 0 =
-          cum v.data v.len b - cum v.data v.len (8 * (b / 8)) := by
-        simp only [List.getD, List.getElem?_map, List.getElem?_range hb, Option.map_some, Option.getD_some]
-        exact Nat.mod_eq_of_lt (hn _ hb)
-      rw [hbr]
+      rw [ofBVec_blockRank v b hb]
       have hmono := cum_mono v.data v.len (8 * (b / 8)) b (by omega)
       have hcb : cum v.data v.len b = onesBelow v.data (64 * b) := by
         unfold cum; rw [Nat.min_eq_left (by omega)]
@@ -2201,10 +3078,10 @@ theorem rank1_correct (v : BVec) (hw : v.WF) (hn : NoTrunc v) (pos : Nat) :
         have : r = 0 := by omega
         rw [this, Nat.add_zero]
 
-theorem rank0_correct (v : BVec) (hw : v.WF) (hn : NoTrunc v) (pos : Nat) :
+theorem rank0_correct (v : BVec) (hw : v.WF) (pos : Nat) :
     (SBV.ofBVec v).rank0 pos = .ok (min pos v.len - onesBelow v.data (min pos v.len)) := by
   unfold SBV.rank0
-  rw [ofBVec_inner, rank1_correct v hw hn]
+  rw [ofBVec_inner, rank1_correct v hw]
   simp only [Nat.min_assoc, Nat.min_self]
   unfold usub
   rw [if_neg (by have := onesBelow_le v.data (min pos v.len); omega)]
@@ -2232,31 +3109,25 @@ theorem specRank_false (f : Nat → Bool) (n pos : Nat) :
     congr 1; funext x; simp only [Function.comp]; cases f x <;> simp
   rw [← e]; omega
 
-/-- P: on a bit vector where no superblock holds 256 or more ones ahead of one of its blocks
-(decidable hypothesis `NoTrunc`), `rank1(pos)` is the number of ones and `rank0(pos)` the number of
-zeros among the first `pos` bits (the whole vector for `pos ≥ len`). -/
-theorem c15b_sbv_rank_partial (v : BVec) (hw : v.WF) (hn : NoTrunc v) (bs : List Bool)
+/-- F: `rank1(pos)` is the number of ones and `rank0(pos)` the number of zeros among the first `pos`
+bits (the whole vector for `pos ≥ len`) — for every well-formed bit vector: the relative block ranks
+are at most 448 and are stored in nine bits, so none is truncated. -/
+theorem c15b_sbv_rank (v : BVec) (hw : v.WF) (bs : List Bool)
     (hb : v.toBools = .ok bs) (pos : Nat) :
     (SBV.ofBVec v).rank1 pos = .ok (Spec.rank true bs pos) ∧
     (SBV.ofBVec v).rank0 pos = .ok (Spec.rank false bs pos) := by
   rw [toBools_wf v hw] at hb
   cases hb
-  rw [rank1_correct v hw hn, rank0_correct v hw hn, specRank_true, specRank_false]
+  rw [rank1_correct v hw, rank0_correct v hw, specRank_true, specRank_false]
   exact ⟨rfl, rfl⟩
 
-/-- W: the unrestricted statement is false: in 321 set bits the fifth block starts 256 ones into its
-superblock, `256 as u8` is 0, and `rank1(300)` answers 44. -/
+/-- W (regression): with the block ranks stored as `u8`, in 321 set bits the fifth block starts 256
+ones into its superblock, `256 as u8` is 0, and `rank1(300)` answered 44; now it answers 300. -/
 theorem c15b_sbv_rank_trunc_witness :
-    (SBV.ofBVec (BVec.fromBools (List.replicate 321 true))).rank1 300 = .ok 44 ∧
+    Old.rank1 (BVec.fromBools (List.replicate 321 true)) 300 = .ok 44 ∧
     Spec.rank true (List.replicate 321 true) 300 = 300 ∧
-    ¬ NoTrunc (BVec.fromBools (List.replicate 321 true)) := by
+    (SBV.ofBVec (BVec.fromBools (List.replicate 321 true))).rank1 300 = .ok 300 := by
   refine ⟨by decide +kernel, by decide +kernel, by decide +kernel⟩
-
-/-- N: the hypothesis holds for a vector spanning several superblocks. -/
-theorem c15b_sbv_nonvacuity : NoTrunc (BVec.fromBools ((List.range 1200).map (fun i => i % 3 == 0))) := by decide +kernel
-
-
-set_option maxRecDepth 40000
 
 /-! ### `select_in_word` -/
 
@@ -2439,23 +3310,20 @@ theorem bsSuper_spec (sb : List Nat) (target : Nat) (f lo hi : Nat)
       rw [this]; exact h2
 
 theorem blockScan_spec (br : List Nat) (base target : Nat) (n i cur : Nat)
-    (hcur : cur + 1 = i) (hg : ∃ x, br[cur]? = some x ∧ base + x < target) (hend : i + n ≤ br.length) :
-    ∃ r, blockScan br base target n i cur = .ok r ∧ cur ≤ r ∧ r < i + n ∧
-      (∃ x, br[r]? = some x ∧ base + x < target) ∧
-      (r + 1 = i + n ∨ (r + 1 < i + n ∧ ∃ y, br[r + 1]? = some y ∧ target ≤ base + y)) := by
+    (hcur : cur + 1 = i) (hg : base + blockRank br cur < target) :
+    ∃ r, blockScan br base target n i cur = r ∧ cur ≤ r ∧ r < i + n ∧
+      base + blockRank br r < target ∧
+      (r + 1 = i + n ∨ (r + 1 < i + n ∧ target ≤ base + blockRank br (r + 1))) := by
   induction n generalizing i cur with
   | zero => exact ⟨cur, rfl, Nat.le_refl _, by omega, hg, Or.inl (by omega)⟩
   | succ n ih =>
     unfold blockScan
-    have hi : i < br.length := by omega
-    rw [List.getElem?_eq_getElem hi]
-    simp only
-    by_cases hge : base + br[i] ≥ target
+    by_cases hge : base + blockRank br i ≥ target
     · rw [if_pos hge]
-      refine ⟨cur, rfl, Nat.le_refl _, by omega, hg, Or.inr ⟨by omega, br[i], ?_, hge⟩⟩
-      rw [hcur]; exact List.getElem?_eq_getElem hi
+      refine ⟨cur, rfl, Nat.le_refl _, by omega, hg, Or.inr ⟨by omega, ?_⟩⟩
+      rw [hcur]; exact hge
     · rw [if_neg hge]
-      obtain ⟨r, g1, g2, g3, g4, g5⟩ := ih (i + 1) i rfl ⟨_, List.getElem?_eq_getElem hi, by omega⟩ (by omega)
+      obtain ⟨r, g1, g2, g3, g4, g5⟩ := ih (i + 1) i rfl (by omega)
       exact ⟨r, g1, by omega, by omega, g4, by
         rcases g5 with g5 | ⟨g5, g6⟩
         · left; omega
@@ -2510,7 +3378,7 @@ theorem cum_word (v : BVec) (hw : v.WF) (b : Nat) (hb : b < v.data.length) (t : 
   have := List.mem_range.mp hj
   rw [bitmapNull_word v.data b j (by omega)]
 
-theorem select1_correct (v : BVec) (hw : v.WF) (hn : NoTrunc v) (k : Nat) (hk : k < onesBelow v.data v.len) :
+theorem select1_correct (v : BVec) (hw : v.WF) (k : Nat) (hk : k < onesBelow v.data v.len) :
     ∃ p, (SBV.ofBVec v).select1 k = .ok (some p) ∧ p < v.len ∧ bitmapNull v.data p = true ∧
       onesBelow v.data p = k := by
   have hlen := hw.1
@@ -2555,63 +3423,50 @@ theorem select1_correct (v : BVec) (hw : v.WF) (hn : NoTrunc v) (k : Nat) (hk : 
         rw [List.getElem?_eq_none (by omega)] at hy1; cases hy1)] at hy1
       cases hy1; omega
   -- 3. the block
-  have hbr := ofBVec_br v
-  have hbrlen : (SBV.ofBVec v).blockRanks.length = v.data.length := by rw [hbr]; simp
   have hbrget : ∀ b, b < v.data.length → b / 8 = sbi →
-      (SBV.ofBVec v).blockRanks[b]? = some (cum v.data v.len b - cum v.data v.len (8 * sbi)) := by
+      blockRank (SBV.ofBVec v).blockRanks b = cum v.data v.len b - cum v.data v.len (8 * sbi) := by
     intro b hb hb8
-    rw [hbr, List.getElem?_map, List.getElem?_range hb]
-    simp only [Option.map_some, Option.some.injEq]
-    rw [Nat.mod_eq_of_lt (hn b hb), hb8]
+    rw [ofBVec_blockRank v b hb, hb8]
   have hstartblk : sbi * 8 < v.data.length := by omega
   have hblock : ∃ bi, blockScan (SBV.ofBVec v).blockRanks (cum v.data v.len (8 * sbi)) (k + 1)
-        (min ((sbi + 1) * 8) (SBV.ofBVec v).blockRanks.length - sbi * 8) (sbi * 8) (sbi * 8) = .ok bi ∧
+        (min ((sbi + 1) * 8) (SBV.ofBVec v).inner.data.length - sbi * 8) (sbi * 8) (sbi * 8) = bi ∧
       bi < v.data.length ∧ bi / 8 = sbi ∧ cum v.data v.len bi ≤ k ∧ k < cum v.data v.len (bi + 1) := by
-    rw [hbrlen]
+    rw [ofBVec_inner]
     obtain ⟨n, hn'⟩ : ∃ n, min ((sbi + 1) * 8) v.data.length - sbi * 8 = n + 1 :=
       ⟨min ((sbi + 1) * 8) v.data.length - sbi * 8 - 1, by omega⟩
     rw [hn']
     unfold blockScan
-    rw [hbrget (sbi * 8) hstartblk (by omega)]
-    simp only
     have e8 : 8 * sbi = sbi * 8 := by omega
     have hc8 : cum v.data v.len (sbi * 8) = cum v.data v.len (8 * sbi) := by rw [e8]
-    rw [if_neg (by omega)]
-    obtain ⟨r, g1, g2, g3, ⟨x, g4, g5⟩, g6⟩ := blockScan_spec (SBV.ofBVec v).blockRanks
-      (cum v.data v.len (8 * sbi)) (k + 1) n (sbi * 8 + 1) (sbi * 8) rfl
-      ⟨_, hbrget (sbi * 8) hstartblk (by omega), by omega⟩ (by rw [hbrlen]; omega)
+    have h0 := hbrget (sbi * 8) hstartblk (by omega)
+    rw [if_neg (by rw [h0]; omega)]
+    obtain ⟨r, g1, g2, g3, g4, g6⟩ := blockScan_spec (SBV.ofBVec v).blockRanks
+      (cum v.data v.len (8 * sbi)) (k + 1) n (sbi * 8 + 1) (sbi * 8) rfl (by rw [h0]; omega)
     have hr8 : r / 8 = sbi := by omega
     have hrlt : r < v.data.length := by omega
     rw [hbrget r hrlt hr8] at g4
-    cases g4
     have hm := cum_mono v.data v.len (8 * sbi) r (by omega)
     refine ⟨r, g1, hrlt, hr8, by omega, ?_⟩
-    rcases g6 with g6 | ⟨hlt6, y, hy1, hy2⟩
+    rcases g6 with g6 | ⟨hlt6, hy2⟩
     · -- the last block of the superblock (or of the vector)
       by_cases hlast : r + 1 = (sbi + 1) * 8
       · rw [hlast, show (sbi + 1) * 8 = 8 * (sbi + 1) by omega]; exact hnext
       · have hend : v.data.length ≤ r + 1 := by omega
         rw [cum_sat v hw _ hend]; exact hk
-    · have hr1 : r + 1 < v.data.length := by
-        apply Classical.byContradiction; intro h
-        rw [List.getElem?_eq_none (by omega)] at hy1; cases hy1
-      rw [hbrget (r + 1) hr1 (by omega)] at hy1
-      cases hy1
+    · have hr1 : r + 1 < v.data.length := by omega
+      rw [hbrget (r + 1) hr1 (by omega)] at hy2
       have hm2 := cum_mono v.data v.len (8 * sbi) (r + 1) (by omega)
       omega
   obtain ⟨bi, hb1, hb2, hb3, hb4, hb5⟩ := hblock
   -- 4. the word
   unfold SBV.select1
   rw [ofBVec_ones, cum_full v hw, if_neg (by omega)]
-  simp only
   rw [hlo1, hs1]
   simp only
   rw [hsball sbi hs2]
   simp only
-  rw [hb1]
-  simp only
-  rw [hbrget bi hb2 hb3]
-  simp only
+  rw [hb1, hbrget bi hb2 hb3]
+  unfold select1Word
   have hm := cum_mono v.data v.len (8 * sbi) bi (by omega)
   have hbase : cum v.data v.len (8 * sbi) + (cum v.data v.len bi - cum v.data v.len (8 * sbi)) =
       cum v.data v.len bi := by omega
@@ -2744,14 +3599,14 @@ theorem sel0Search_spec (s : SBV) (Z : Nat → Nat) (hZ : ∀ p, s.rank0 p = .ok
       subst this
       exact ⟨lo, rfl, Nat.le_refl _, Nat.le_refl _, h1, h2⟩
 
-theorem select0_correct (v : BVec) (hw : v.WF) (hn : NoTrunc v) (k : Nat)
+theorem select0_correct (v : BVec) (hw : v.WF) (k : Nat)
     (hk : k < v.len - onesBelow v.data v.len) :
     ∃ p, (SBV.ofBVec v).select0 k = .ok (some p) ∧ p < v.len ∧ bitmapNull v.data p = false ∧
       zerosBelow v p = k := by
   have hlen := hw.1
   unfold nWords at hlen
   have hinv := sbv_inv v
-  have hZ : ∀ p, (SBV.ofBVec v).rank0 p = .ok (zerosBelow v p) := fun p => rank0_correct v hw hn p
+  have hZ : ∀ p, (SBV.ofBVec v).rank0 p = .ok (zerosBelow v p) := fun p => rank0_correct v hw p
   have htot : zerosBelow v v.len = v.len - onesBelow v.data v.len := by
     unfold zerosBelow; rw [Nat.min_self]
   -- the sampled start position
@@ -2824,9 +3679,9 @@ theorem filter_false_length (f : Nat → Bool) (n : Nat) :
   rw [List.take_of_length_le (by simp), Nat.min_self] at this
   exact this
 
-/-- P: under the same hypothesis, `select1(k)` is the position of the `k`-th one and `select0(k)`
-the position of the `k`-th zero (0-indexed), `None` when there are not that many. -/
-theorem c15b_sbv_select_partial (v : BVec) (hw : v.WF) (hn : NoTrunc v) (bs : List Bool)
+/-- F: `select1(k)` is the position of the `k`-th one and `select0(k)` the position of the `k`-th zero
+(0-indexed), `None` when there are not that many — for every well-formed bit vector. -/
+theorem c15b_sbv_select (v : BVec) (hw : v.WF) (bs : List Bool)
     (hb : v.toBools = .ok bs) (k : Nat) :
     (SBV.ofBVec v).select1 k = .ok (Spec.select true bs k 0) ∧
     (SBV.ofBVec v).select0 k = .ok (Spec.select false bs k 0) := by
@@ -2834,7 +3689,7 @@ theorem c15b_sbv_select_partial (v : BVec) (hw : v.WF) (hn : NoTrunc v) (bs : Li
   cases hb
   constructor
   · by_cases hk : k < onesBelow v.data v.len
-    · obtain ⟨p, h1, h2, h3, h4⟩ := select1_correct v hw hn k hk
+    · obtain ⟨p, h1, h2, h3, h4⟩ := select1_correct v hw k hk
       rw [h1]
       have := specSelect_of true ((List.range v.len).map (bitmapNull v.data)) k 0 p (by simpa using h2)
         (by simp [h3]) (by
@@ -2845,7 +3700,7 @@ theorem c15b_sbv_select_partial (v : BVec) (hw : v.WF) (hn : NoTrunc v) (bs : Li
     · rw [select1_none v hw k (by omega), specSelect_none]
       rw [filter_true_length]; unfold onesBelow at hk; omega
   · by_cases hk : k < v.len - onesBelow v.data v.len
-    · obtain ⟨p, h1, h2, h3, h4⟩ := select0_correct v hw hn k hk
+    · obtain ⟨p, h1, h2, h3, h4⟩ := select0_correct v hw k hk
       rw [h1]
       have := specSelect_of false ((List.range v.len).map (bitmapNull v.data)) k 0 p (by simpa using h2)
         (by simp [h3]) (by
@@ -2859,86 +3714,7 @@ theorem c15b_sbv_select_partial (v : BVec) (hw : v.WF) (hn : NoTrunc v) (bs : Li
     · rw [select0_none v hw k (by omega), specSelect_none]
       rw [filter_false_length]; unfold onesBelow at hk; omega
 
-/-- W: without the hypothesis: in 512 set bits `select1(300)` finds nothing, and
-`select0(0)` of 300 ones, a zero and 30 more ones misses the only zero (at position 300). -/
-theorem c15b_sbv_select_trunc_witness :
-    (SBV.ofBVec (BVec.fromBools (List.replicate 512 true))).select1 300 = .ok none ∧
-    Spec.select true (List.replicate 512 true) 300 0 = some 300 ∧
-    (SBV.ofBVec (BVec.fromBools (List.replicate 300 true ++ false :: List.replicate 30 true))).select0 0 ≠
-      .ok (Spec.select false (List.replicate 300 true ++ false :: List.replicate 30 true) 0 0) := by
-  refine ⟨by decide +kernel, by decide +kernel, by decide +kernel⟩
-
-
-set_option maxRecDepth 40000
-
 /-! ### Elias-Fano -/
-
-/-- `set` on a well-formed vector -/
-theorem set_wf (v : BVec) (hw : v.WF) (i : Nat) (hi : i < v.len) (b : Bool) :
-    ∃ v', v.set i b = .ok v' ∧ v'.WF ∧ v'.len = v.len ∧
-      ∀ q, bitmapNull v'.data q = if q = i then b else bitmapNull v.data q := by
-  obtain ⟨data, len⟩ := v
-  obtain ⟨hlen, hlt⟩ := hw
-  simp only at hlen hlt hi
-  unfold nWords at hlen
-  have hin : i / 64 < data.length := by omega
-  unfold BVec.set
-  simp only
-  rw [if_neg (by omega), List.getElem?_eq_getElem hin]
-  simp only
-  refine ⟨_, rfl, ⟨by simp [nWords]; omega, ?_⟩, rfl, ?_⟩
-  · intro w hw
-    simp only at hw
-    obtain ⟨k, hk, he⟩ := List.getElem_of_mem hw
-    have hk' : k < data.length := by simpa using hk
-    have := List.getElem?_modify (fun w => if b then setBit w (i % 64) else clearBit w (i % 64)) (i / 64) data k
-    rw [List.getElem?_eq_getElem hk, List.getElem?_eq_getElem hk', he] at this
-    simp only [Option.map_eq_map, Option.map_some, Option.some.injEq] at this
-    rw [this]
-    have hwk := hlt _ (List.getElem_mem hk')
-    split
-    · split
-      · exact setBit_lt _ _ hwk (Nat.mod_lt _ (by decide))
-      · unfold clearBit
-        exact Nat.lt_of_le_of_lt Nat.and_le_left hwk
-    · exact hwk
-  · intro q
-    simp only
-    unfold bitmapNull
-    rw [List.getElem?_modify]
-    cases hq : data[q / 64]? with
-    | none =>
-      have : q ≠ i := by
-        intro h; subst h; rw [List.getElem?_eq_getElem hin] at hq; cases hq
-      simp [this]
-    | some w =>
-      simp only [Option.map_eq_map, Option.map_some]
-      by_cases h64 : i / 64 = q / 64
-      · rw [if_pos h64]
-        by_cases hqi : q = i
-        · subst hqi
-          rw [if_pos rfl]
-          cases b
-          · simp only [Bool.false_eq_true, if_false, getBit_eq_testBit, clearBit, Nat.one_shiftLeft,
-              Nat.testBit_and, Nat.testBit_xor, Nat.testBit_two_pow]
-            have hw64 : (W - 1).testBit (q % 64) = true := by
-              have : W - 1 = 2 ^ 64 - 1 := by decide
-              rw [this, Nat.testBit_two_pow_sub_one]; simp; omega
-            simp [hw64]
-          · simp only [if_true, getBit_setBit]; simp
-        · rw [if_neg hqi]
-          have hne : i % 64 ≠ q % 64 := by omega
-          cases b
-          · simp only [Bool.false_eq_true, if_false, getBit_eq_testBit, clearBit, Nat.one_shiftLeft,
-              Nat.testBit_and, Nat.testBit_xor, Nat.testBit_two_pow]
-            have hw64 : (W - 1).testBit (q % 64) = true := by
-              have : W - 1 = 2 ^ 64 - 1 := by decide
-              rw [this, Nat.testBit_two_pow_sub_one]; simp; omega
-            simp [hw64, hne]
-          · simp only [if_true, getBit_setBit]; simp [hne]
-      · rw [if_neg h64]
-        have : q ≠ i := by intro h; subst h; exact h64 rfl
-        rw [if_neg this]
 
 /-- positions set by the upper-bits loop -/
 def posFrom (lb : Nat) : Nat → List Nat → List Nat
@@ -3176,14 +3952,18 @@ theorem efMask_eq (lb : Nat) (h : lb < 64) : efMask lb = 2 ^ lb - 1 := by
   · rw [if_pos h0, h0]
   · rw [if_neg h0, if_neg (by omega)]
 
-/-- P: Elias-Fano random access returns the `i`-th element — for every strictly increasing `u64`
-sequence whose last element is below `u64::MAX`, whose lower-bit width stays below 64 (excludes only
-a single element `≥ 2^63 - 1`) and whose unary upper part has no truncated block rank. -/
-theorem c15b_ef_get_partial (vs : List Nat) (hs : strictlyIncreasing vs = true)
-    (last : Nat) (hlast : vs.getLast? = some last) (hmax : last + 1 < W)
-    (hlb : efLowerBits vs.length last < 64) :
+theorem efLowerBits_le (n last : Nat) : efLowerBits n last ≤ 63 := by
+  unfold efLowerBits; split
+  · omega
+  · exact Nat.min_le_right _ _
+
+/-- F: Elias-Fano random access returns the `i`-th element — for every strictly increasing `u64`
+sequence, up to `u64::MAX`, whatever its clustering. -/
+theorem c15b_ef_get (vs : List Nat) (hs : strictlyIncreasing vs = true) (hW : ∀ v ∈ vs, v < W)
+    (last : Nat) (hlast : vs.getLast? = some last) :
     ∃ e, EF.new vs = .ok e ∧ e.n = vs.length ∧
-      (NoTrunc e.upper.inner → ∀ i (hi : i < vs.length), e.get i = .ok vs[i]) := by
+      ∀ i (hi : i < vs.length), e.get i = .ok vs[i] := by
+  have hlb : efLowerBits vs.length last < 64 := by have := efLowerBits_le vs.length last; omega
   have hpw := strictlyIncreasing_pairwise vs hs
   have hn0 : 0 < vs.length := by
     cases vs with
@@ -3217,24 +3997,23 @@ theorem c15b_ef_get_partial (vs : List Nat) (hs : strictlyIncreasing vs = true)
       exact Nat.div_le_div_right (hle t ht')
     omega
   obtain ⟨ub, hu1, hu2, hu3, hu4⟩ := setUpper_spec lb (vs.length + (last >>> lb))
-    (BVec.filled (vs.length + (last >>> lb)) false) (filled_false_wf_clean _).1 rfl 0 vs hposlt
+    (BVec.filled (vs.length + (last >>> lb)) false) (filled_false_wf_clean _).1 (filled_wf_clean _ false).2.2 0 vs hposlt
   have hubits : ∀ q, bitmapNull ub.data q = decide (q ∈ posFrom lb 0 vs) := by
     intro q
     rw [hu4]
-    have : bitmapNull (BVec.filled (vs.length + (last >>> lb)) false).data q = false :=
-      bitmapNull_replicate _ _
+    have : bitmapNull (BVec.filled (vs.length + (last >>> lb)) false).data q = false := by
+      rw [bitmapNull_filled]; rfl
     rw [this, Bool.false_or]
-  refine ⟨⟨vs.length, last + 1, lb, lower, SBV.ofBVec ub⟩, ?_, rfl, ?_⟩
+  refine ⟨⟨vs.length, min (last + 1) (W - 1), last, lb, lower, SBV.ofBVec ub⟩, ?_, rfl, ?_⟩
   · unfold EF.new
     rw [hlast]
     simp only
     rw [hs]
     simp only [Bool.not_true, Bool.false_eq_true, if_false]
-    rw [if_neg (by omega), hlbdef, hl1]
+    rw [hlbdef, hl1]
     simp only
     rw [if_neg (by omega), hu1]
-  · intro hnt i hi
-    simp only [ofBVec_inner] at hnt
+  · intro i hi
     -- the i-th one of the upper vector is at `high_i + i`
     have hpi := posFrom_get lb 0 vs i hi
     have hpil : i < (posFrom lb 0 vs).length := by rw [posFrom_length]; exact hi
@@ -3255,14 +4034,14 @@ theorem c15b_ef_get_partial (vs : List Nat) (hs : strictlyIncreasing vs = true)
     have htotal : i < onesBelow ub.data ub.len := by
       have := onesBelow_lt_of_bit ub.data _ _ hplt hbit
       omega
-    obtain ⟨p, hp1, hp2, hp3, hp4⟩ := select1_correct ub hu2 hnt i htotal
+    obtain ⟨p, hp1, hp2, hp3, hp4⟩ := select1_correct ub hu2 i htotal
     have hpeq : p = (vs[i] >>> lb) + i := by
       apply Classical.byContradiction; intro hne
       rcases Nat.lt_or_gt_of_ne hne with h | h
       · have := onesBelow_lt_of_bit ub.data _ _ h hp3; omega
       · have := onesBelow_lt_of_bit ub.data _ _ h hbit; omega
     -- the lower bits
-    have hlow : EF.getLower ⟨vs.length, last + 1, lb, lower, SBV.ofBVec ub⟩ i = vs[i] % 2 ^ lb := by
+    have hlow : EF.getLower ⟨vs.length, min (last + 1) (W - 1), last, lb, lower, SBV.ofBVec ub⟩ i = vs[i] % 2 ^ lb := by
       unfold EF.getLower
       simp only
       by_cases h0 : lb = 0
@@ -3293,7 +4072,7 @@ theorem c15b_ef_get_partial (vs : List Nat) (hs : strictlyIncreasing vs = true)
     rw [if_neg (Nat.not_lt.mpr (Nat.le_add_left _ _)), hlow, Nat.add_sub_cancel]
     congr 1
     -- (high << lb) | low = value
-    have hv : vs[i] < W := by have := hle i hi; omega
+    have hv : vs[i] < W := hW _ (List.getElem_mem hi)
     have hsh : (vs[i] >>> lb) <<< lb ≤ vs[i] := by
       rw [Nat.shiftRight_eq_div_pow, Nat.shiftLeft_eq]
       exact Nat.div_mul_le_self _ _
@@ -3302,17 +4081,22 @@ theorem c15b_ef_get_partial (vs : List Nat) (hs : strictlyIncreasing vs = true)
     rw [← Nat.shiftLeft_add_eq_or_of_lt hlowlt, Nat.shiftRight_eq_div_pow, Nat.shiftLeft_eq]
     rw [Nat.mul_comm]; exact Nat.div_add_mod _ _
 
-/-- W: the excluded inputs. A single element `2^63 - 1` (or larger) makes `lower_bits = 64` and
-`values[n-1] >> 64` panics; `u64::MAX` overflows `values[n-1] + 1`. -/
+/-- W (regression): the old constructor panicked on a single element `2^63 - 1` or larger
+(`lower_bits = 64`, `values[n-1] >> 64`) and on `u64::MAX` (`values[n-1] + 1`); now both are stored. -/
 theorem c15b_ef_extreme_witness :
-    EF.new [9223372036854775807] = .panic ∧ EF.new [18446744073709551615] = .panic ∧
-    efLowerBits 1 9223372036854775807 = 64 := by decide +kernel
+    Old.efNewPanics [9223372036854775807] = true ∧ Old.efNewPanics [18446744073709551615] = true ∧
+    (match EF.new [9223372036854775807] with
+      | .ok e => e.get 0
+      | _ => .err) = .ok 9223372036854775807 ∧
+    (match EF.new [0, 18446744073709551615] with
+      | .ok e => (e.get 1, e.contains 18446744073709551615)
+      | _ => (.err, .err)) = (.ok 18446744073709551615, .ok true) := by decide +kernel
 
-/-- N: the hypotheses hold for a sequence with large gaps and values up to 2^64 - 2. -/
-theorem c15b_ef_nonvacuity : ∃ e, EF.new [3, 9, 1000000, 18446744073709551614] = .ok e ∧ NoTrunc e.upper.inner ∧
-    e.get 3 = .ok 18446744073709551614 := by
-  refine ⟨_, rfl, ?_, ?_⟩ <;> decide +kernel
-
+/-- N: a dense cluster followed by a distant value (the case the truncated block ranks broke). -/
+theorem c15b_ef_nonvacuity :
+    (match EF.new (List.range 300 ++ [1000000]) with
+      | .ok e => (e.get 260, e.get 300)
+      | _ => (.err, .err)) = (.ok 260, .ok 1000000) := by decide +kernel
 
 set_option maxRecDepth 40000
 
@@ -3332,17 +4116,15 @@ theorem efDecodeFrom_eq (e : EF) (f : Nat → Nat) (n s : Nat)
     rw [this]
     simp [List.range'_succ]
 
-/-- P: under the same hypotheses, iterating an Elias-Fano sequence returns the original sequence. -/
-theorem c15b_ef_decode_partial (vs : List Nat) (hs : strictlyIncreasing vs = true)
-    (last : Nat) (hlast : vs.getLast? = some last) (hmax : last + 1 < W)
-    (hlb : efLowerBits vs.length last < 64) :
-    ∃ e, EF.new vs = .ok e ∧ (NoTrunc e.upper.inner → e.decode = .ok vs) := by
-  obtain ⟨e, h1, h2, h3⟩ := c15b_ef_get_partial vs hs last hlast hmax hlb
+/-- F: iterating an Elias-Fano sequence returns the original sequence. -/
+theorem c15b_ef_decode (vs : List Nat) (hs : strictlyIncreasing vs = true) (hW : ∀ v ∈ vs, v < W)
+    (last : Nat) (hlast : vs.getLast? = some last) :
+    ∃ e, EF.new vs = .ok e ∧ e.decode = .ok vs := by
+  obtain ⟨e, h1, h2, h3⟩ := c15b_ef_get vs hs hW last hlast
   refine ⟨e, h1, ?_⟩
-  intro hnt
   unfold EF.decode
   rw [h2, efDecodeFrom_eq e (fun i => vs.getD i 0) vs.length 0 (fun k hk => by
-    rw [Nat.zero_add, h3 hnt k hk]; simp [List.getD, List.getElem?_eq_getElem hk])]
+    rw [Nat.zero_add, h3 k hk]; simp [List.getD, List.getElem?_eq_getElem hk])]
   congr 1
   apply List.ext_getElem?
   intro i
@@ -3353,19 +4135,8 @@ theorem c15b_ef_decode_partial (vs : List Nat) (hs : strictlyIncreasing vs = tru
   · rw [← List.range_eq_range', List.getElem?_eq_none (by simpa using Nat.le_of_not_lt hi),
       List.getElem?_eq_none (by omega)]; rfl
 
-/-- W: with a dense cluster the unary upper part has 256 ones ahead of a block, `select1` goes wrong
-and `get` panics (`expect("index within bounds")`): 300 consecutive ids followed by a distant one. -/
-theorem c15b_ef_trunc_witness :
-    (match EF.new (List.range 300 ++ [1000000]) with
-      | .ok e => e.get 260
-      | _ => .err) = .panic ∧
-    (match EF.new (List.range 300 ++ [1000000]) with
-      | .ok e => decide (NoTrunc e.upper.inner)
-      | _ => true) = false := by
-  constructor <;> decide +kernel
-
 /-- the empty sequence -/
-example : EF.new [] = .ok ⟨0, 0, 0, BVec.empty, SBV.ofBVec BVec.empty⟩ := rfl
+example : EF.new [] = .ok ⟨0, 0, 0, 0, BVec.empty, SBV.ofBVec BVec.empty⟩ := rfl
 
 
 set_option maxRecDepth 40000
@@ -3466,13 +4237,13 @@ theorem specRank_map (P : Nat → Bool) (S : List Nat) (p : Nat) :
   · congr 2; funext x; simp
 
 theorem levelOK_of (S : List Nat) (b : Nat) (bits : BVec)
-    (hb : BVec.empty.pushAll (levelBits b S) = .ok bits) (hn : NoTrunc bits) :
+    (hb : BVec.empty.pushAll (levelBits b S) = .ok bits) :
     LevelOK (SBV.ofBVec bits) S b := by
   obtain ⟨v, h1, h2, h3, h4⟩ := c15b_bitvec_collect (levelBits b S)
   rw [hb] at h1
   cases h1
-  have hr := fun p => c15b_sbv_rank_partial bits h2 hn _ h4 p
-  have hs := fun k => c15b_sbv_select_partial bits h2 hn _ h4 k
+  have hr := fun p => c15b_sbv_rank bits h2 _ h4 p
+  have hs := fun k => c15b_sbv_select bits h2 _ h4 k
   have hlen : bits.len = S.length := by
     have := toBools_wf bits h2
     rw [h4] at this
@@ -3485,7 +4256,7 @@ theorem levelOK_of (S : List Nat) (b : Nat) (bits : BVec)
   · -- zeros = len - ones
     unfold SBV.countZeros
     rw [ofBVec_inner, ofBVec_ones, cum_full bits h2]
-    have h1 := rank1_correct bits h2 hn bits.len
+    have h1 := rank1_correct bits h2 bits.len
     rw [(hr bits.len).1, Nat.min_self] at h1
     have heq := Res.ok.inj h1
     unfold levelBits at heq
@@ -3556,10 +4327,9 @@ theorem partition_get (b : Nat) (S : List Nat) (pos : Nat) (hp : pos < S.length)
       rw [List.getElem?_eq_none (by omega)] at h; cases h
     rw [List.getElem?_append_left hlt]; exact h
 
-def AllNoTrunc (levels : List SBV) : Prop := ∀ l ∈ levels, NoTrunc l.inner
 
 theorem accessLoop_spec (n : Nat) (S : List Nat) (levels : List SBV) (hb : buildLevels n S = .ok levels)
-    (hnt : AllNoTrunc levels) (pos : Nat) (hp : pos < S.length) (code0 : Nat) :
+    (pos : Nat) (hp : pos < S.length) (code0 : Nat) :
     ∃ code, accessLoop levels n pos code0 = .ok code ∧
       ∀ t, code.testBit t = (code0.testBit t || (decide (t < n) && S[pos].testBit t)) := by
   induction n generalizing S levels pos code0 with
@@ -3571,8 +4341,7 @@ theorem accessLoop_spec (n : Nat) (S : List Nat) (levels : List SBV) (hb : build
     obtain ⟨bits, rest, h1, h2, h3⟩ := buildLevels_succ n S
     rw [h3] at hb
     cases hb
-    have hlv := levelOK_of S n bits h1 (hnt (SBV.ofBVec bits) (by simp))
-    have hnt' : AllNoTrunc rest := fun l hl => hnt l (by simp [hl])
+    have hlv := levelOK_of S n bits h1
     have hpg := partition_get n S pos hp
     unfold accessLoop
     unfold getOrFalse
@@ -3588,7 +4357,7 @@ theorem accessLoop_spec (n : Nat) (S : List Nat) (levels : List SBV) (hb : build
           (partitionLevel n S).length := by
         apply Classical.byContradiction; intro hn
         rw [List.getElem?_eq_none (by omega)] at hpg; cases hpg
-      obtain ⟨code, g1, g2⟩ := ih (partitionLevel n S) rest h2 hnt' _ hpos' (code0 ||| 1 <<< n)
+      obtain ⟨code, g1, g2⟩ := ih (partitionLevel n S) rest h2 _ hpos' (code0 ||| 1 <<< n)
       refine ⟨code, g1, ?_⟩
       intro t
       rw [g2 t]
@@ -3612,7 +4381,7 @@ theorem accessLoop_spec (n : Nat) (S : List Nat) (levels : List SBV) (hb : build
       have hpos' : (S.take pos).countP (fun c => !bitOf n c) < (partitionLevel n S).length := by
         apply Classical.byContradiction; intro hn
         rw [List.getElem?_eq_none (by omega)] at hpg; cases hpg
-      obtain ⟨code, g1, g2⟩ := ih (partitionLevel n S) rest h2 hnt' _ hpos' code0
+      obtain ⟨code, g1, g2⟩ := ih (partitionLevel n S) rest h2 _ hpos' code0
       refine ⟨code, g1, ?_⟩
       intro t
       rw [g2 t]
@@ -3656,7 +4425,7 @@ theorem low_bits_split (n code x : Nat) : (x % 2 ^ (n + 1) == code % 2 ^ (n + 1)
 
 /-- the interval `[lo, hi)` shrinks to the elements whose low `n` bits are those of `code` -/
 theorem descend_spec (n : Nat) (S : List Nat) (levels : List SBV) (hb : buildLevels n S = .ok levels)
-    (hnt : AllNoTrunc levels) (code lo hi : Nat) (hlh : lo ≤ hi) (hhi : hi ≤ S.length) :
+    (code lo hi : Nat) (hlh : lo ≤ hi) (hhi : hi ≤ S.length) :
     ∃ lo' hi', descend code levels n lo hi = .ok (lo', hi') ∧ lo' ≤ hi' ∧
       hi' - lo' = (slice S lo hi).countP (fun x => x % 2 ^ n == code % 2 ^ n) := by
   induction n generalizing S levels lo hi with
@@ -3670,8 +4439,7 @@ theorem descend_spec (n : Nat) (S : List Nat) (levels : List SBV) (hb : buildLev
     obtain ⟨bits, rest, h1, h2, h3⟩ := buildLevels_succ n S
     rw [h3] at hb
     cases hb
-    have hlv := levelOK_of S n bits h1 (hnt (SBV.ofBVec bits) (by simp))
-    have hnt' : AllNoTrunc rest := fun l hl => hnt l (by simp [hl])
+    have hlv := levelOK_of S n bits h1
     have hplen := partitionLevel_length n S
     have hsplit := fun x => low_bits_split n code x
     unfold descend
@@ -3683,7 +4451,7 @@ theorem descend_spec (n : Nat) (S : List Nat) (levels : List SBV) (hb : buildLev
       simp only
       have hsl := slice_right (bitOf n) S (S.filter (fun c => !bitOf n c)) lo hi hlh
       rw [← List.countP_eq_length_filter] at hsl
-      obtain ⟨lo', hi', g1, g2, g3⟩ := ih (partitionLevel n S) rest h2 hnt'
+      obtain ⟨lo', hi', g1, g2, g3⟩ := ih (partitionLevel n S) rest h2
         (S.countP (fun c => !bitOf n c) + (S.take lo).countP (bitOf n))
         (S.countP (fun c => !bitOf n c) + (S.take hi).countP (bitOf n))
         (by have := countP_take_mono (bitOf n) S lo hi hlh; omega)
@@ -3708,7 +4476,7 @@ theorem descend_spec (n : Nat) (S : List Nat) (levels : List SBV) (hb : buildLev
       rw [hlv.rank0, hlv.rank0]
       simp only
       have hsl := slice_left (fun c => !bitOf n c) S (S.filter (bitOf n)) lo hi hlh
-      obtain ⟨lo', hi', g1, g2, g3⟩ := ih (partitionLevel n S) rest h2 hnt'
+      obtain ⟨lo', hi', g1, g2, g3⟩ := ih (partitionLevel n S) rest h2
         ((S.take lo).countP (fun c => !bitOf n c)) ((S.take hi).countP (fun c => !bitOf n c))
         (countP_take_mono _ S lo hi hlh)
         (by
@@ -3819,18 +4587,16 @@ theorem code_of_mem (seq : List Nat) (s : Nat) (hs : s ∈ seq) :
   obtain ⟨c, h1, h2, h3⟩ := idxOf?_of_mem (sortDedup seq) s ((mem_sortDedup s seq).mpr hs)
   exact ⟨c, h1, h3, Nat.lt_of_lt_of_le h2 (sigma_le _)⟩
 
-/-- P: `access(i)` of a wavelet tree is the `i`-th symbol, provided no level's rank index was
-truncated (`AllNoTrunc`, decidable). -/
-theorem c15b_wt_access_partial (seq : List Nat) (w : WT) (hw : WT.new seq = .ok w)
-    (hnt : AllNoTrunc w.levels) (i : Nat) (hi : i < seq.length) : w.access i = .ok seq[i] := by
+/-- F: `access(i)` of a wavelet tree is the `i`-th symbol. -/
+theorem c15b_wt_access (seq : List Nat) (w : WT) (hw : WT.new seq = .ok w)
+    (i : Nat) (hi : i < seq.length) : w.access i = .ok seq[i] := by
   have hne : seq ≠ [] := by intro h; subst h; simp at hi
   obtain ⟨levels, h1, h2⟩ := wtNew_nonempty seq hne
   rw [h1] at hw
   cases hw
-  simp only at hnt
   obtain ⟨c, hc1, hc2, hc3⟩ := code_of_mem seq seq[i] (List.getElem_mem hi)
   have hlen : i < (seq.map (fun s => (codeOf (sortDedup seq) s).getD 0)).length := by simpa using hi
-  obtain ⟨code, g1, g2⟩ := accessLoop_spec _ _ levels h2 hnt i hlen 0
+  obtain ⟨code, g1, g2⟩ := accessLoop_spec _ _ levels h2 i hlen 0
   unfold WT.access
   simp only
   rw [if_neg (by omega), g1]
@@ -3865,9 +4631,9 @@ theorem accessAll_eq (w : WT) (f : Nat → Nat) (n s : Nat)
     rw [this]
     simp [List.range'_succ]
 
-/-- P: under the same hypothesis, iterating the tree returns the original sequence. -/
-theorem c15b_wt_decode_partial (seq : List Nat) (w : WT) (hw : WT.new seq = .ok w)
-    (hnt : AllNoTrunc w.levels) : w.decode = .ok seq := by
+/-- F: iterating the tree returns the original sequence. -/
+theorem c15b_wt_decode (seq : List Nat) (w : WT) (hw : WT.new seq = .ok w)
+    : w.decode = .ok seq := by
   have hlen : w.len = seq.length := by
     by_cases hne : seq = []
     · subst hne; simp [WT.new] at hw; subst hw; rfl
@@ -3875,7 +4641,7 @@ theorem c15b_wt_decode_partial (seq : List Nat) (w : WT) (hw : WT.new seq = .ok 
       rw [h1] at hw; cases hw; rfl
   unfold WT.decode
   rw [hlen, accessAll_eq w (fun i => seq.getD i 0) seq.length 0 (fun k hk => by
-    rw [Nat.zero_add, c15b_wt_access_partial seq w hw hnt k hk]
+    rw [Nat.zero_add, c15b_wt_access seq w hw k hk]
     simp [List.getD, List.getElem?_eq_getElem hk])]
   congr 1
   apply List.ext_getElem?
@@ -3887,9 +4653,9 @@ theorem c15b_wt_decode_partial (seq : List Nat) (w : WT) (hw : WT.new seq = .ok 
   · rw [← List.range_eq_range', List.getElem?_eq_none (by simpa using Nat.le_of_not_lt hi),
       List.getElem?_eq_none (by omega)]; rfl
 
-/-- P: `rank(symbol, i)` is the number of occurrences of `symbol` among the first `i` symbols. -/
-theorem c15b_wt_rank_partial (seq : List Nat) (w : WT) (hw : WT.new seq = .ok w)
-    (hnt : AllNoTrunc w.levels) (sym i : Nat) : w.rank sym i = .ok (Spec.symRank seq sym i) := by
+/-- F: `rank(symbol, i)` is the number of occurrences of `symbol` among the first `i` symbols. -/
+theorem c15b_wt_rank (seq : List Nat) (w : WT) (hw : WT.new seq = .ok w)
+    (sym i : Nat) : w.rank sym i = .ok (Spec.symRank seq sym i) := by
   by_cases hne : seq = []
   · subst hne
     simp [WT.new] at hw; subst hw
@@ -3897,7 +4663,6 @@ theorem c15b_wt_rank_partial (seq : List Nat) (w : WT) (hw : WT.new seq = .ok w)
   obtain ⟨levels, h1, h2⟩ := wtNew_nonempty seq hne
   rw [h1] at hw
   cases hw
-  simp only at hnt
   unfold WT.rank
   simp only
   by_cases h0 : i = 0
@@ -3908,7 +4673,7 @@ theorem c15b_wt_rank_partial (seq : List Nat) (w : WT) (hw : WT.new seq = .ok w)
   · obtain ⟨c, hc1, hc2, hc3⟩ := code_of_mem seq sym hmem
     rw [hc1]
     simp only
-    obtain ⟨lo', hi', g1, g2, g3⟩ := descend_spec _ _ levels h2 hnt c 0 (min i seq.length)
+    obtain ⟨lo', hi', g1, g2, g3⟩ := descend_spec _ _ levels h2 c 0 (min i seq.length)
       (Nat.zero_le _) (by simp; omega)
     rw [g1]
     simp only
@@ -3964,29 +4729,15 @@ theorem c15b_wt_rank_partial (seq : List Nat) (w : WT) (hw : WT.new seq = .ok w)
 
 set_option maxRecDepth 40000
 
-instance (levels : List SBV) : Decidable (AllNoTrunc levels) := by
-  unfold AllNoTrunc; exact List.decidableBAll _ _
-
-/-- W: without the hypothesis: 600 copies of one symbol followed by another — the single level is a
-run of 600 ones, its block ranks wrap, and `rank(9, 300)` answers 44. -/
-theorem c15b_wt_trunc_witness :
-    (match WT.new (List.replicate 600 9 ++ [3]) with
-      | .ok w => w.rank 9 300
-      | _ => .err) = .ok 44 ∧
-    Spec.symRank (List.replicate 600 9 ++ [3]) 9 300 = 300 ∧
-    (match WT.new (List.replicate 600 9 ++ [3]) with
-      | .ok w => decide (AllNoTrunc w.levels)
-      | _ => true) = false := by
-  refine ⟨by decide +kernel, by decide +kernel, by decide +kernel⟩
-
-/-- N: the hypothesis holds for a small alphabet. -/
+/-- N: a long run of one symbol (the case the truncated block ranks broke) and a small alphabet. -/
 theorem c15b_wt_nonvacuity :
-    ∃ w, WT.new [0, 1, 0, 2, 1, 0, 2, 2] = .ok w ∧ AllNoTrunc w.levels ∧ w.rank 0 6 = .ok 3 ∧
-      w.access 3 = .ok 2 := by
-  refine ⟨_, rfl, ?_, ?_, ?_⟩ <;> decide +kernel
-
-
-set_option maxRecDepth 40000
+    (match WT.new (List.replicate 600 9 ++ [3]) with
+      | .ok w => (w.rank 9 300, w.select 9 300, w.access 600)
+      | _ => (.err, .err, .err)) = (.ok 300, .ok (some 300), .ok 3) ∧
+    (match WT.new [0, 1, 0, 2, 1, 0, 2, 2] with
+      | .ok w => (w.rank 0 6, w.access 3)
+      | _ => (.err, .err)) = (.ok 3, .ok 2) := by
+  constructor <;> decide +kernel
 
 /-! ### wavelet tree: select -/
 
@@ -4085,7 +4836,7 @@ theorem buildLevels_length (n : Nat) (S : List Nat) (levels : List SBV)
 /-- descent followed by ascent: the `k`-th element of `[lo, hi)` whose low `n` bits are those of
 `code` is found at its position in the original arrangement -/
 theorem ascend_spec (n : Nat) (S : List Nat) (levels : List SBV) (hb : buildLevels n S = .ok levels)
-    (hnt : AllNoTrunc levels) (code lo hi : Nat) (hlh : lo ≤ hi) (hhi : hi ≤ S.length)
+    (code lo hi : Nat) (hlh : lo ≤ hi) (hhi : hi ≤ S.length)
     (lo' hi' : Nat) (hd : descend code levels n lo hi = .ok (lo', hi')) (k : Nat) (hk : k < hi' - lo') :
     ∃ p, ∃ hp : p < S.length, ascend code levels.reverse 0 (lo' + k) = .ok (some p) ∧ lo ≤ p ∧ p < hi ∧
       S[p] % 2 ^ n = code % 2 ^ n ∧
@@ -4103,8 +4854,7 @@ theorem ascend_spec (n : Nat) (S : List Nat) (levels : List SBV) (hb : buildLeve
     obtain ⟨bits, rest, h1, h2, h3⟩ := buildLevels_succ n S
     rw [h3] at hb
     cases hb
-    have hlv := levelOK_of S n bits h1 (hnt (SBV.ofBVec bits) (by simp))
-    have hnt' : AllNoTrunc rest := fun l hl => hnt l (by simp [hl])
+    have hlv := levelOK_of S n bits h1
     have hplen := partitionLevel_length n S
     have hrl := buildLevels_length n _ rest h2
     have hsplit := fun x => low_bits_split n code x
@@ -4121,7 +4871,7 @@ theorem ascend_spec (n : Nat) (S : List Nat) (levels : List SBV) (hb : buildLeve
       simp only at hd
       have hmono := countP_take_mono (bitOf n) S lo hi hlh
       have hle := countP_take_le_len (bitOf n) S hi
-      obtain ⟨p', hp', g1, g2, g3, g4, g5⟩ := ih (partitionLevel n S) rest h2 hnt'
+      obtain ⟨p', hp', g1, g2, g3, g4, g5⟩ := ih (partitionLevel n S) rest h2
         (S.countP (fun c => !bitOf n c) + (S.take lo).countP (bitOf n))
         (S.countP (fun c => !bitOf n c) + (S.take hi).countP (bitOf n))
         (by omega) (by rw [hplen]; omega) lo' hi' hd hk
@@ -4175,7 +4925,7 @@ theorem ascend_spec (n : Nat) (S : List Nat) (levels : List SBV) (hb : buildLeve
       have hmono := countP_take_mono (fun c => !bitOf n c) S lo hi hlh
       have hle := countP_take_le_len (fun c => !bitOf n c) S hi
       have hcl := List.countP_le_length (p := fun c => !bitOf n c) (l := S)
-      obtain ⟨p', hp', g1, g2, g3, g4, g5⟩ := ih (partitionLevel n S) rest h2 hnt'
+      obtain ⟨p', hp', g1, g2, g3, g4, g5⟩ := ih (partitionLevel n S) rest h2
         ((S.take lo).countP (fun c => !bitOf n c)) ((S.take hi).countP (fun c => !bitOf n c))
         hmono (by rw [hplen]; omega) lo' hi' hd hk
       rw [g1]
@@ -4250,10 +5000,10 @@ theorem code_match (seq : List Nat) (sym c : Nat) (hc1 : codeOf (sortDedup seq) 
     have h2 : (x == sym) = false := by simpa using hxs
     rw [h1, h2]
 
-/-- P: `select(symbol, k)` is the position of the `k`-th occurrence of `symbol` (0-indexed), `None`
-when there are not that many — under the same hypothesis. -/
-theorem c15b_wt_select_partial (seq : List Nat) (w : WT) (hw : WT.new seq = .ok w)
-    (hnt : AllNoTrunc w.levels) (sym k : Nat) : w.select sym k = .ok (Spec.symSelect sym seq k 0) := by
+/-- F: `select(symbol, k)` is the position of the `k`-th occurrence of `symbol` (0-indexed), `None`
+when there are not that many. -/
+theorem c15b_wt_select (seq : List Nat) (w : WT) (hw : WT.new seq = .ok w)
+    (sym k : Nat) : w.select sym k = .ok (Spec.symSelect sym seq k 0) := by
   rw [symSelect_eq]
   by_cases hne : seq = []
   · subst hne
@@ -4262,7 +5012,6 @@ theorem c15b_wt_select_partial (seq : List Nat) (w : WT) (hw : WT.new seq = .ok 
   obtain ⟨levels, h1, h2⟩ := wtNew_nonempty seq hne
   rw [h1] at hw
   cases hw
-  simp only at hnt
   have hlen0 : seq.length ≠ 0 := fun h => hne (List.length_eq_zero_iff.mp h)
   unfold WT.select
   simp only
@@ -4272,7 +5021,7 @@ theorem c15b_wt_select_partial (seq : List Nat) (w : WT) (hw : WT.new seq = .ok 
     rw [hc1]
     simp only
     have hcl : (seq.map (fun s => (codeOf (sortDedup seq) s).getD 0)).length = seq.length := by simp
-    obtain ⟨lo', hi', g1, g2, g3⟩ := descend_spec _ _ levels h2 hnt c 0 seq.length
+    obtain ⟨lo', hi', g1, g2, g3⟩ := descend_spec _ _ levels h2 c 0 seq.length
       (Nat.zero_le _) (by rw [hcl]; exact Nat.le_refl _)
     rw [g1]
     simp only
@@ -4302,7 +5051,7 @@ theorem c15b_wt_select_partial (seq : List Nat) (w : WT) (hw : WT.new seq = .ok 
         apply List.countP_congr; intro x _; simp
       rw [this]; omega
     · rw [if_neg hk]
-      obtain ⟨p, hp, a1, a2, a3, a4, a5⟩ := ascend_spec _ _ levels h2 hnt c 0 seq.length
+      obtain ⟨p, hp, a1, a2, a3, a4, a5⟩ := ascend_spec _ _ levels h2 c 0 seq.length
         (Nat.zero_le _) (by rw [hcl]; exact Nat.le_refl _) lo' hi' g1 k (by omega)
       rw [a1]
       congr 2
@@ -4344,52 +5093,6 @@ theorem c15b_wt_select_partial (seq : List Nat) (w : WT) (hw : WT.new seq = .ok 
 
 set_option maxRecDepth 40000
 
-/-! ### the model's boolean `noTrunc` is the hypothesis `NoTrunc` -/
-
-theorem noTruncLoop_iff (data : List Nat) (len : Nat) (ws : List Nat) (i ones sbStart : Nat)
-    (hws : ∀ j, ws[j]? = data[i + j]?) (hones : ones = cum data len i)
-    (hst : i % 8 ≠ 0 → sbStart = cum data len (8 * (i / 8))) :
-    noTruncLoop len i ones sbStart ws = true ↔
-      ∀ b, i ≤ b → b < i + ws.length → cum data len b - cum data len (8 * (b / 8)) < 256 := by
-  induction ws generalizing i ones sbStart with
-  | nil =>
-    simp only [noTruncLoop, List.length_nil, Nat.add_zero, true_iff]
-    intro b h1 h2; omega
-  | cons w ws ih =>
-    have hw : data[i]? = some w := by have := hws 0; simp at this; exact this.symm
-    have hstart : (if i % 8 = 0 then ones else sbStart) = cum data len (8 * (i / 8)) := by
-      by_cases h8 : i % 8 = 0
-      · rw [if_pos h8, hones]; congr 1; omega
-      · rw [if_neg h8, hst h8]
-    unfold noTruncLoop
-    rw [Bool.and_eq_true, decide_eq_true_eq, hstart]
-    have hrec := ih (i + 1) (ones + wordOnes len i w) (cum data len (8 * (i / 8)))
-      (by intro j; have := hws (j + 1); simp only [List.getElem?_cons_succ] at this; rw [this]; congr 1; omega)
-      (by rw [hones]; exact cum_step data len i w hw)
-      (by intro h; congr 2; omega)
-    rw [hrec, hones]
-    constructor
-    · rintro ⟨h0, hr⟩ b hb1 hb2
-      by_cases hbi : b = i
-      · subst hbi; exact h0
-      · exact hr b (by omega) (by simp only [List.length_cons] at hb2; omega)
-    · intro h
-      refine ⟨h i (Nat.le_refl _) (by simp), ?_⟩
-      intro b hb1 hb2
-      exact h b (by omega) (by simp only [List.length_cons]; omega)
-
-/-- F: the decidable test of the model (`BVec.noTrunc`, used by the stream to name deviations) is
-exactly the hypothesis of the rank/select theorems. -/
-theorem c15b_noTrunc_iff (v : BVec) : v.noTrunc = true ↔ NoTrunc v := by
-  unfold BVec.noTrunc NoTrunc
-  rw [noTruncLoop_iff v.data v.len v.data 0 0 0 (by intro j; simp) (by simp [cum_zero]) (by intro h; omega)]
-  constructor
-  · intro h b hb; exact h b (Nat.zero_le _) (by omega)
-  · intro h b _ hb; exact h b (by omega)
-
-
-set_option maxRecDepth 40000
-
 /-! ### adjacency list: `compact` -/
 
 /-- all entries of a list of hot chunks, in order -/
@@ -4424,16 +5127,10 @@ theorem drainLoop_flat (cap : Nat) (hcap : 0 < cap) (hot : List AChunk) (cur : A
       rw [this]
       simp [flat_append, flat_singleton]
 
-theorem zeroSingleton_dst (es : List Entry) (h : zeroSingleton es = true) : ∃ e ∈ es, e.1 = 0 := by
-  match es, h with
-  | [(0, x)], _ => exact ⟨(0, x), by simp, rfl⟩
-
-/-- moving hot chunks to cold storage keeps the entries, up to order, when no chunk that is moved is
-a single edge to node 0 -/
+/-- moving hot chunks to cold storage keeps the entries, up to order -/
 theorem toCold_perm (f : Nat) (hot : List AChunk) (cold : List CChunk) (ce : List Entry)
     (hc : coldEntries cold = .ok ce)
-    (hb : ∀ c ∈ hot, ∀ e ∈ c.entries, e.1 < W ∧ e.2 < W)
-    (hz : ∀ c ∈ hot, zeroSingleton c.entries = false) :
+    (hb : ∀ c ∈ hot, ∀ e ∈ c.entries, e.1 < W ∧ e.2 < W) :
     ∃ ce', coldEntries (toCold f hot cold).2 = .ok ce' ∧
       (ce' ++ flat (toCold f hot cold).1).Perm (ce ++ flat hot) := by
   induction f generalizing hot cold ce with
@@ -4447,19 +5144,17 @@ theorem toCold_perm (f : Nat) (hot : List AChunk) (cold : List CChunk) (ce : Lis
         simp only
         have hb' : ∀ c ∈ rest, ∀ e ∈ c.entries, e.1 < W ∧ e.2 < W :=
           fun c hc' => hb c (List.mem_cons_of_mem _ hc')
-        have hz' : ∀ c ∈ rest, zeroSingleton c.entries = false :=
-          fun c hc' => hz c (List.mem_cons_of_mem _ hc')
         split
         · rename_i hlen
-          obtain ⟨ce', h1, h2⟩ := ih rest cold ce hc hb' hz'
+          obtain ⟨ce', h1, h2⟩ := ih rest cold ce hc hb'
           refine ⟨ce', h1, ?_⟩
           have : oldest.entries = [] := List.length_eq_zero_iff.mp hlen
           simpa [flat, this] using h2
-        · obtain ⟨g1, g2⟩ := c15b_adj_chunk_roundtrip_partial oldest (hb oldest (by simp)) (hz oldest (by simp))
+        · obtain ⟨g1, g2⟩ := c15b_adj_chunk_roundtrip oldest (hb oldest (by simp))
           have hc2 : coldEntries (cold ++ [oldest.compress]) = .ok (ce ++ sortByDst oldest.entries) :=
             coldEntries_append cold [oldest.compress] ce (sortByDst oldest.entries) hc
               (by simp [coldEntries, g1])
-          obtain ⟨ce', h1, h2⟩ := ih rest (cold ++ [oldest.compress]) _ hc2 hb' hz'
+          obtain ⟨ce', h1, h2⟩ := ih rest (cold ++ [oldest.compress]) _ hc2 hb'
           refine ⟨ce', h1, h2.trans ?_⟩
           have e : flat (oldest :: rest) = oldest.entries ++ flat rest := by simp [flat]
           rw [e, List.append_assoc]
@@ -4508,12 +5203,11 @@ theorem compactHot_flat (hot : List AChunk) (delta : List Entry) (cap : Nat) (hc
     rw [this, List.append_nil] at hdrain; exact hdrain
 
 /-- P: `compact` (move the delta buffer into chunks, compress the oldest chunks) keeps the edge list
-of a node up to order — for a positive chunk capacity and as long as no edge points to node 0
-(the decidable hypothesis; it rules out the zero-singleton chunk). -/
+of a node up to order — for a positive chunk capacity (with `with_chunk_capacity(0)` every chunk
+is full at once and `compact` drops the delta buffer). -/
 theorem c15b_adj_compact_partial (l : AList) (cap : Nat) (hcap : 0 < cap) (es : List Entry)
     (h : l.iter = .ok es)
-    (hb : ∀ e ∈ flat l.hot ++ l.delta, e.1 < W ∧ e.2 < W)
-    (hz : ∀ e ∈ flat l.hot ++ l.delta, e.1 ≠ 0) :
+    (hb : ∀ e ∈ flat l.hot ++ l.delta, e.1 < W ∧ e.2 < W) :
     ∃ es', (l.compact cap).iter = .ok es' ∧ es'.Perm es := by
   unfold AList.compact
   split
@@ -4532,12 +5226,6 @@ theorem c15b_adj_compact_partial (l : AList) (cap : Nat) (hcap : 0 < cap) (es : 
       obtain ⟨ce', t1, t2⟩ := toCold_perm (compactHot l.hot l.delta cap).length
         (compactHot l.hot l.delta cap) l.cold ce hc
         (fun c hc' e he => hb e (hmem2 c hc' e he))
-        (fun c hc' => by
-          cases hzs : zeroSingleton c.entries with
-          | false => rfl
-          | true =>
-            obtain ⟨e, he, he0⟩ := zeroSingleton_dst _ hzs
-            exact absurd he0 (hz e (hmem2 c hc' e he)))
       unfold AList.iter
       simp only
       rw [t1]
@@ -4551,10 +5239,11 @@ theorem c15b_adj_compact_partial (l : AList) (cap : Nat) (hcap : 0 < cap) (es : 
     | err => rw [hc] at h; cases h
     | panic => rw [hc] at h; cases h
 
-/-- W: with an edge to node 0 `compact` does lose it (chunk capacity 1: every chunk is a singleton). -/
+/-- W: the hypothesis is needed — with chunk capacity 0 `compact` loses the delta buffer; and
+(regression) with capacity 1 the first of five edges to node 0 is no longer lost. -/
 theorem c15b_adj_compact_witness :
+    (((({} : AList).addEdge (1, 7)).addEdge (2, 8)).compact 0).iter = .ok [] ∧
     ((((((({} : AList).addEdge (0, 1)).addEdge (0, 2)).addEdge (0, 3)).addEdge (0, 4)).addEdge (0, 5)).compact 1).iter
-      = .ok [(0, 2), (0, 3), (0, 4), (0, 5)] := by decide
-
+      = .ok [(0, 1), (0, 2), (0, 3), (0, 4), (0, 5)] := by decide
 
 end Grafeo.Codec2
